@@ -1,5 +1,2416 @@
-use crate::Ctx;
+//! C11 - snapshot and delta parsers are total and enforce their limits.
+//!
+//! Generators: structured snapshots / deltas serialised by an independent writer (so duplicates,
+//! oversized counts, unsorted keys, registry items of wrong length ... can be produced), then
+//! corrupted on the wire (single fields set to boundary values, truncation at every position,
+//! insertions, byte-level damage of the varint form), plus plain random words / bytes.
+//!
+//! Oracle: (1) every library call returns (no panic, callbacks bounded by fuel) and allocates at
+//! most 64 x input bytes + 64 KiB; (2) accept / reject and the accepted content agree with a small
+//! reference reader written from doc/snapshot.md and the limits of the property statement
+//! (1024 items, 64 KiB); (3) every accepted snapshot can be written to both wire forms inside
+//! 64 KiB, read back to an equal snapshot, enumerated, looked up, checksummed, diffed against
+//! other accepted snapshots (and the empty one) in both directions, and recycled into a builder.
 
-pub fn run(_ctx: &Ctx) {
-    // not built yet
+use crate::{
+    alloc_max_single, alloc_peak, alloc_track_start, burn, ensure, ensure_eq, guard, pick,
+    set_fuel, unlimited_fuel, Ctx, Outcome, PResult,
+};
+use libtw2_packer::{with_packer, IntUnpacker, Unpacker};
+use libtw2_snapshot::format::{TypeId, Warning};
+use libtw2_snapshot::snap::{BuilderError, Error};
+use libtw2_snapshot::{Delta, Snap};
+use libtw2_warn::{Ignore, Warn};
+use proptest::prelude::*;
+use serde::{Deserialize, Serialize};
+use serde_json::json;
+use std::collections::{BTreeMap, BTreeSet};
+use std::sync::atomic::{AtomicU64, Ordering};
+use uuid::Uuid;
+
+// Limits from the property statement (deliberately not the library's constants).
+pub const LIMIT_ITEMS: usize = 1024;
+pub const LIMIT_BYTES: usize = 64 * 1024;
+pub const LIMIT_WORDS: usize = LIMIT_BYTES / 4;
+
+// ---------------------------------------------------------------------------
+// Known findings (input classes that are steered around when listed in known_findings.json)
+
+pub const K_APPLY_MISMATCH: &str = "apply-update-size-mismatch";
+pub const K_CREATE_MISMATCH: &str = "create-size-mismatch";
+pub const K_RECYCLE_LOW: &str = "recycle-registry-id-below-0x4000";
+pub const K_RECYCLE_LADDER: &str = "recycle-registry-id-ladder";
+pub const K_RECYCLE_UUID: &str = "recycle-uuid-type-number-lost";
+pub const K_RECYCLE_HIGH: &str = "recycle-type-ge-0x8000";
+
+#[derive(Clone, Copy, Debug, Default)]
+pub struct Known {
+    /// delta updates a live item of the old snapshot with a different size -> read_with_delta panics
+    pub apply_mismatch: bool,
+    /// two accepted snapshots share a key with different sizes -> Delta::create panics
+    pub create_mismatch: bool,
+    /// registry item with id < 0x4000 -> recycle + add_item(new uuid) panics
+    pub recycle_low: bool,
+    /// registry ids climbing in steps < 256 up to >= 0x7f00 -> recycle / add_item panics
+    pub recycle_ladder: bool,
+    /// (C10 root cause) parsed registry loses the type numbers -> recycle panics with >= 2 uuid
+    /// types, adding an item of a known uuid type corrupts the registry with 1
+    pub recycle_uuid: bool,
+    /// items of type >= 0x8000 sort before the registry -> recycle does not advance the next type id
+    pub recycle_high: bool,
+}
+
+impl Known {
+    pub fn none() -> Known {
+        Known::default()
+    }
+    pub fn all() -> Known {
+        Known {
+            apply_mismatch: true,
+            create_mismatch: true,
+            recycle_low: true,
+            recycle_ladder: true,
+            recycle_uuid: true,
+            recycle_high: true,
+        }
+    }
+    /// From a list of open finding keys (for callers without a `Ctx`, e.g. fuzz targets).
+    pub fn from_keys(keys: &[&str]) -> Known {
+        let has = |k: &str| keys.iter().any(|x| *x == k);
+        Known {
+            apply_mismatch: has(K_APPLY_MISMATCH),
+            create_mismatch: has(K_CREATE_MISMATCH),
+            recycle_low: has(K_RECYCLE_LOW),
+            recycle_ladder: has(K_RECYCLE_LADDER),
+            recycle_uuid: has(K_RECYCLE_UUID),
+            recycle_high: has(K_RECYCLE_HIGH),
+        }
+    }
+    pub fn from_ctx(ctx: &Ctx) -> Known {
+        Known {
+            apply_mismatch: ctx.known_open(K_APPLY_MISMATCH),
+            create_mismatch: ctx.known_open(K_CREATE_MISMATCH),
+            recycle_low: ctx.known_open(K_RECYCLE_LOW),
+            recycle_ladder: ctx.known_open(K_RECYCLE_LADDER),
+            recycle_uuid: ctx.known_open(K_RECYCLE_UUID),
+            recycle_high: ctx.known_open(K_RECYCLE_HIGH),
+        }
+    }
+}
+
+static EXCLUDED: AtomicU64 = AtomicU64::new(0);
+static VARIANTS: AtomicU64 = AtomicU64::new(0);
+
+fn excluded() {
+    EXCLUDED.fetch_add(1, Ordering::Relaxed);
+}
+
+// ---------------------------------------------------------------------------
+// Error variant bookkeeping
+
+pub const ERR_NAMES: [&str; 18] = [
+    "UnexpectedEnd",
+    "IntOutOfRange",
+    "DeletedItemsUnpacking",
+    "ItemDiffsUnpacking",
+    "TypeIdRange",
+    "IdRange",
+    "NegativeSize",
+    "TooLongDiff",
+    "TooLongSnap",
+    "TooManyItems",
+    "DeltaDifferingSizes",
+    "OffsetsUnpacking",
+    "InvalidOffset",
+    "ItemsUnpacking",
+    "DuplicateKey",
+    "DuplicateUuidType",
+    "InvalidUuidType",
+    "MissingUuidType",
+];
+
+fn err_index(e: &Error) -> usize {
+    match e {
+        Error::UnexpectedEnd => 0,
+        Error::IntOutOfRange => 1,
+        Error::DeletedItemsUnpacking => 2,
+        Error::ItemDiffsUnpacking => 3,
+        Error::TypeIdRange => 4,
+        Error::IdRange => 5,
+        Error::NegativeSize => 6,
+        Error::TooLongDiff => 7,
+        Error::TooLongSnap => 8,
+        Error::TooManyItems => 9,
+        Error::DeltaDifferingSizes => 10,
+        Error::OffsetsUnpacking => 11,
+        Error::InvalidOffset => 12,
+        Error::ItemsUnpacking => 13,
+        Error::DuplicateKey => 14,
+        Error::DuplicateUuidType => 15,
+        Error::InvalidUuidType => 16,
+        Error::MissingUuidType => 17,
+    }
+}
+
+const OPS: [&str; 3] = ["snap_read", "delta_read", "read_with_delta"];
+static ERR_SEEN: [[AtomicU64; 18]; 3] = {
+    const Z: AtomicU64 = AtomicU64::new(0);
+    const R: [AtomicU64; 18] = [Z; 18];
+    [R; 3]
+};
+
+fn note_err(op: usize, e: &Error) -> &'static str {
+    let i = err_index(e);
+    ERR_SEEN[op][i].fetch_add(1, Ordering::Relaxed);
+    ERR_NAMES[i]
+}
+
+// ---------------------------------------------------------------------------
+// Warning sink (does not allocate, burns fuel)
+
+#[derive(Default, Clone, Copy, Debug)]
+pub struct Sink {
+    pub n: usize,
+    pub kinds: u32,
+}
+
+impl Warn<Warning> for Sink {
+    fn warn(&mut self, w: Warning) {
+        burn();
+        self.n += 1;
+        self.kinds |= 1
+            << match w {
+                Warning::Packer(_) => 0,
+                Warning::NonZeroPadding => 1,
+                Warning::DuplicateDelete => 2,
+                Warning::DuplicateUpdate => 3,
+                Warning::UnknownDelete => 4,
+                Warning::DeleteUpdate => 5,
+                Warning::NumUpdatedItems => 6,
+                Warning::ExcessSnapData => 7,
+                Warning::ExcessUuidItemData => 8,
+            };
+    }
+}
+
+// ---------------------------------------------------------------------------
+// Reference model (doc/snapshot.md + the limits of the statement)
+
+/// Items by unsigned key.
+pub type Items = BTreeMap<u32, Vec<i32>>;
+
+#[derive(Clone, Debug)]
+pub enum Verdict<T> {
+    /// must be accepted with this content
+    Accept(T),
+    /// must be refused
+    Reject(&'static str),
+    /// the documents do not decide; if accepted the content must be this
+    Either(T),
+}
+
+fn key_type(k: u32) -> u16 {
+    (k >> 16) as u16
+}
+fn key_id(k: u32) -> u16 {
+    k as u16
+}
+fn mk_key(ty: u16, id: u16) -> u32 {
+    ((ty as u32) << 16) | id as u32
+}
+
+pub fn model_words(items: &Items) -> usize {
+    2 + 2 * items.len() + items.values().map(|d| d.len()).sum::<usize>()
+}
+
+fn within_limits(items: &Items) -> Result<(), &'static str> {
+    if items.len() > LIMIT_ITEMS {
+        return Err("more than 1024 items");
+    }
+    if model_words(items) * 4 > LIMIT_BYTES {
+        return Err("more than 64 KiB");
+    }
+    Ok(())
+}
+
+/// Registry (type 0) entries: id -> uuid words.
+fn registry(items: &Items) -> Vec<(u16, [i32; 4])> {
+    items
+        .range(0..0x1_0000u32)
+        .filter(|(_, d)| d.len() >= 4)
+        .map(|(&k, d)| (key_id(k), [d[0], d[1], d[2], d[3]]))
+        .collect()
+}
+
+/// Ok(true): must be accepted; Ok(false): the registry numbers a uuid type outside 0x4000..0x8000,
+/// which the documents do not speak about (the library accepts it today; refusing would be fine too).
+fn registry_rules(items: &Items) -> Result<bool, &'static str> {
+    let mut seen = BTreeSet::new();
+    let mut in_range = true;
+    for (k, d) in items.range(0..0x1_0000u32) {
+        if !(0x4000..0x8000).contains(k) {
+            in_range = false;
+        }
+        if d.len() < 4 {
+            return Err("registry item shorter than a uuid");
+        }
+        if !seen.insert([d[0], d[1], d[2], d[3]]) {
+            return Err("two registry items with the same uuid");
+        }
+    }
+    let mut prev = None;
+    for &k in items.keys() {
+        let t = key_type(k);
+        if t >= 0x4000 && prev != Some(t) {
+            if !items.contains_key(&mk_key(0, t)) {
+                return Err("item of an extended type without registry entry");
+            }
+            prev = Some(t);
+        }
+    }
+    Ok(in_range)
+}
+
+/// Canonical serialisation (ascending unsigned key order) as documented.
+pub fn model_serialize(items: &Items) -> Vec<i32> {
+    let data: usize = items.values().map(|d| d.len() + 1).sum();
+    let mut out = Vec::with_capacity(2 + items.len() + data);
+    out.push((data * 4) as i32);
+    out.push(items.len() as i32);
+    let mut off = 0usize;
+    for d in items.values() {
+        out.push((off * 4) as i32);
+        off += d.len() + 1;
+    }
+    for (&k, d) in items {
+        out.push(k as i32);
+        out.extend_from_slice(d);
+    }
+    out
+}
+
+pub fn model_snap(ints: &[i32]) -> Verdict<Items> {
+    if ints.len() < 2 {
+        return Verdict::Reject("header incomplete");
+    }
+    let (ds, n) = (ints[0], ints[1]);
+    if ds < 0 || n < 0 {
+        return Verdict::Reject("negative header field");
+    }
+    let rest = &ints[2..];
+    let n = n as usize;
+    if n > rest.len() {
+        return Verdict::Reject("offset table longer than the input");
+    }
+    if ds % 4 != 0 {
+        return Verdict::Reject("data_size not a multiple of 4");
+    }
+    let il = (ds / 4) as usize;
+    if n + il > rest.len() {
+        return Verdict::Reject("item area longer than the input");
+    }
+    let offs = &rest[..n];
+    let area = &rest[n..n + il];
+    if n == 0 {
+        return if il == 0 {
+            Verdict::Accept(Items::new())
+        } else {
+            Verdict::Either(Items::new())
+        };
+    }
+    let mut starts = Vec::with_capacity(n + 1);
+    for (i, &o) in offs.iter().enumerate() {
+        if o < 0 {
+            return Verdict::Reject("negative offset");
+        }
+        if o % 4 != 0 {
+            return Verdict::Reject("unaligned offset");
+        }
+        let w = (o / 4) as usize;
+        if i == 0 && w != 0 {
+            return Verdict::Reject("first offset not 0");
+        }
+        if i > 0 && w <= starts[i - 1] {
+            return Verdict::Reject("offsets not strictly increasing");
+        }
+        if w >= il {
+            return Verdict::Reject("offset outside the item area");
+        }
+        starts.push(w);
+    }
+    starts.push(il);
+    if n > LIMIT_ITEMS {
+        return Verdict::Reject("more than 1024 items");
+    }
+    let mut items = Items::new();
+    for i in 0..n {
+        let (s, e) = (starts[i], starts[i + 1]);
+        if items.insert(area[s] as u32, area[s + 1..e].to_vec()).is_some() {
+            return Verdict::Reject("duplicate key");
+        }
+    }
+    if let Err(why) = within_limits(&items) {
+        return Verdict::Reject(why);
+    }
+    match registry_rules(&items) {
+        Err(why) => Verdict::Reject(why),
+        Ok(true) => Verdict::Accept(items),
+        Ok(false) => Verdict::Either(items),
+    }
+}
+
+#[derive(Clone, Copy, Debug, Hash, PartialEq, Eq, Serialize, Deserialize)]
+pub enum Table {
+    /// every size explicit
+    None,
+    /// pre-agreed sizes of the 0.6 protocol (doc/snapshot.md appendix)
+    V06,
+    /// V06 plus two absurd entries (types 30, 31) - a caller-supplied table, used to reach TooLongDiff
+    Huge,
+}
+
+const SIZES_06: [u32; 21] = [
+    0, 10, 6, 5, 4, 3, 8, 4, 15, 22, 5, 17, 3, 2, 2, 2, 2, 3, 3, 3, 3,
+];
+
+pub fn table_size(t: Table, ty: u16) -> Option<u32> {
+    match t {
+        Table::None => None,
+        Table::V06 => {
+            if (1..=20).contains(&ty) {
+                Some(SIZES_06[ty as usize])
+            } else {
+                None
+            }
+        }
+        Table::Huge => match ty {
+            30 => Some(u32::MAX),
+            31 => Some(0x7fff_ffff),
+            _ => table_size(Table::V06, ty),
+        },
+    }
+}
+
+#[derive(Clone, Debug, Default, PartialEq, Eq)]
+pub struct DeltaModel {
+    pub deleted: BTreeSet<u32>,
+    pub updates: BTreeMap<u32, Vec<i32>>,
+}
+
+impl DeltaModel {
+    fn words(&self) -> usize {
+        3 + self.deleted.len() + self.updates.values().map(|d| d.len() + 3).sum::<usize>()
+    }
+}
+
+pub fn model_delta(ints: &[i32], table: Table) -> Verdict<DeltaModel> {
+    if ints.len() < 3 {
+        return Verdict::Reject("header incomplete");
+    }
+    let (nd, nu) = (ints[0], ints[1]);
+    if nd < 0 || nu < 0 {
+        return Verdict::Reject("negative header field");
+    }
+    let mut pos = 3usize;
+    if (nd as usize) > ints.len() - pos {
+        return Verdict::Reject("removed keys longer than the input");
+    }
+    let mut m = DeltaModel::default();
+    for _ in 0..nd {
+        m.deleted.insert(ints[pos] as u32);
+        pos += 1;
+    }
+    let mut buf_len: u64 = 0;
+    while pos < ints.len() {
+        if ints.len() - pos < 2 {
+            return Verdict::Reject("item delta header incomplete");
+        }
+        let (ty, id) = (ints[pos], ints[pos + 1]);
+        pos += 2;
+        if !(0..=0xffff).contains(&ty) {
+            return Verdict::Reject("type id outside 16 bits");
+        }
+        if !(0..=0xffff).contains(&id) {
+            return Verdict::Reject("id outside 16 bits");
+        }
+        let size = match table_size(table, ty as u16) {
+            Some(s) => s as u64,
+            None => {
+                if pos >= ints.len() {
+                    return Verdict::Reject("size missing");
+                }
+                let s = ints[pos];
+                pos += 1;
+                if s < 0 {
+                    return Verdict::Reject("negative size");
+                }
+                s as u64
+            }
+        };
+        if buf_len + size > u32::MAX as u64 {
+            return Verdict::Reject("difference buffer index overflow");
+        }
+        if size > (ints.len() - pos) as u64 {
+            return Verdict::Reject("item delta data longer than the input");
+        }
+        let size = size as usize;
+        m.updates
+            .insert(mk_key(ty as u16, id as u16), ints[pos..pos + size].to_vec());
+        pos += size;
+        buf_len += size as u64;
+    }
+    Verdict::Accept(m)
+}
+
+/// Returns the verdict and whether the delta updates a *live* item with a different size
+/// (the `apply-update-size-mismatch` class).
+pub fn model_apply(from: &Items, d: &DeltaModel) -> (Verdict<Items>, bool) {
+    let mut res: Items = from
+        .iter()
+        .filter(|(k, _)| !d.deleted.contains(k))
+        .map(|(k, v)| (*k, v.clone()))
+        .collect();
+    let mut mismatch = false;
+    let mut mismatch_live = false;
+    for (k, diff) in &d.updates {
+        match from.get(k) {
+            Some(old) if old.len() != diff.len() => {
+                mismatch = true;
+                if res.contains_key(k) {
+                    mismatch_live = true;
+                }
+            }
+            Some(old) => {
+                let v: Vec<i32> = old.iter().zip(diff).map(|(a, b)| a.wrapping_add(*b)).collect();
+                res.insert(*k, v);
+            }
+            None => {
+                res.insert(*k, diff.clone());
+            }
+        }
+    }
+    if mismatch {
+        return (
+            Verdict::Reject("item delta size differs from the size of the old item"),
+            mismatch_live,
+        );
+    }
+    if let Err(why) = within_limits(&res) {
+        return (Verdict::Reject(why), false);
+    }
+    match registry_rules(&res) {
+        Err(why) => (Verdict::Reject(why), false),
+        Ok(true) => (Verdict::Accept(res), false),
+        Ok(false) => (Verdict::Either(res), false),
+    }
+}
+
+// ---------------------------------------------------------------------------
+// Varint wire form (writer is ours; reading for the model goes through the packer, which C08 checks)
+
+pub fn varint(v: i32, out: &mut Vec<u8>) {
+    let sign = v < 0;
+    let mut bits: u32 = if sign { !(v as u32) } else { v as u32 };
+    let mut b = (bits & 0x3f) as u8 | if sign { 0x40 } else { 0 };
+    bits >>= 6;
+    while bits != 0 {
+        out.push(b | 0x80);
+        b = (bits & 0x7f) as u8;
+        bits >>= 7;
+    }
+    out.push(b);
+}
+
+pub fn varints(ints: &[i32]) -> Vec<u8> {
+    let mut out = Vec::with_capacity(ints.len() * 2);
+    for &v in ints {
+        varint(v, &mut out);
+    }
+    out
+}
+
+/// (complete integers, whether the input ends inside an integer)
+pub fn decode_varints(bytes: &[u8]) -> (Vec<i32>, bool) {
+    let mut u = Unpacker::new(bytes);
+    let mut out = Vec::new();
+    while !u.is_empty() {
+        match u.read_int(&mut Ignore) {
+            Ok(v) => out.push(v),
+            Err(_) => return (out, true),
+        }
+    }
+    (out, false)
+}
+
+// ---------------------------------------------------------------------------
+// Measured library calls
+
+/// Runs one library call: panic / fuel capture and the allocation bound of the statement.
+fn measured<R>(what: &str, input_bytes: usize, f: impl FnOnce() -> R) -> Result<R, String> {
+    set_fuel((4 * input_bytes + 64) as i64);
+    alloc_track_start();
+    let r = guard(f);
+    let peak = alloc_peak();
+    let single = alloc_max_single();
+    unlimited_fuel();
+    let r = r.map_err(|p| format!("{}: {}", what, p))?;
+    let bound = 64 * input_bytes + LIMIT_BYTES;
+    ensure!(
+        peak <= bound && single <= bound,
+        "{}: allocated peak {} bytes (largest single request {}) for {} input bytes; bound is 64 x input + 64 KiB = {}",
+        what,
+        peak,
+        single,
+        input_bytes,
+        bound
+    );
+    Ok(r)
+}
+
+fn table_fn(t: Table) -> impl FnMut(u16) -> Option<u32> {
+    move |ty| {
+        burn();
+        table_size(t, ty)
+    }
+}
+
+pub fn lib_snap_from_ints(ints: &[i32]) -> Result<(Snap, Result<(), Error>, Sink), String> {
+    let mut w = Sink::default();
+    let (s, r) = measured("Snap::read_from_ints", ints.len() * 4, || {
+        let mut s = Snap::default();
+        let r = s.read_from_ints(&mut w, ints);
+        (s, r)
+    })?;
+    Ok((s, r, w))
+}
+
+pub fn lib_snap_from_bytes(bytes: &[u8]) -> Result<(Snap, Result<(), Error>, Sink), String> {
+    let mut w = Sink::default();
+    let (s, r) = measured("Snap::read", bytes.len(), || {
+        let mut s = Snap::default();
+        let mut buf = Vec::new();
+        let r = s.read(&mut w, &mut buf, bytes);
+        (s, r)
+    })?;
+    Ok((s, r, w))
+}
+
+pub fn lib_delta_from_ints(
+    table: Table,
+    ints: &[i32],
+) -> Result<(Delta, Result<(), Error>, Sink), String> {
+    let mut w = Sink::default();
+    let (d, r) = measured("Delta::read_from_ints", ints.len() * 4, || {
+        let mut d = Delta::new();
+        let r = d.read_from_ints(&mut w, table_fn(table), &mut IntUnpacker::new(ints));
+        (d, r)
+    })?;
+    Ok((d, r, w))
+}
+
+pub fn lib_delta_from_bytes(
+    table: Table,
+    bytes: &[u8],
+) -> Result<(Delta, Result<(), Error>, Sink), String> {
+    let mut w = Sink::default();
+    let (d, r) = measured("Delta::read", bytes.len(), || {
+        let mut d = Delta::new();
+        let r = d.read(&mut w, table_fn(table), &mut Unpacker::new(bytes));
+        (d, r)
+    })?;
+    Ok((d, r, w))
+}
+
+fn lib_apply(
+    from: &Snap,
+    from_words: usize,
+    delta: &Delta,
+    delta_words: usize,
+) -> Result<(Snap, Result<(), Error>, Sink), String> {
+    let mut w = Sink::default();
+    let (s, r) = measured("Snap::read_with_delta", (from_words + delta_words) * 4, || {
+        let mut s = Snap::default();
+        let r = s.read_with_delta(&mut w, from, delta);
+        (s, r)
+    })?;
+    Ok((s, r, w))
+}
+
+/// `write_to_ints` into a buffer of at most 64 KiB (`hint`: expected number of words, to keep the
+/// buffers of the many small cases small; a too small hint falls back to the full 64 KiB).
+fn lib_write_ints_hint(what: &str, s: &Snap, hint: usize) -> Result<Vec<i32>, String> {
+    let attempt = |words: usize| {
+        guard(|| {
+            let mut out = vec![0i32; words];
+            let mut buf = Vec::new();
+            let n = s.write_to_ints(&mut buf, &mut out).map(|w| w.len());
+            n.map(|n| {
+                out.truncate(n);
+                out
+            })
+        })
+        .map_err(|p| format!("{}: write_to_ints: {}", what, p))
+    };
+    let first = (hint + 4).min(LIMIT_WORDS);
+    if let Ok(v) = attempt(first)? {
+        return Ok(v);
+    }
+    if first < LIMIT_WORDS {
+        if let Ok(v) = attempt(LIMIT_WORDS)? {
+            return Ok(v);
+        }
+    }
+    Err(format!("{}: write_to_ints does not fit into 64 KiB", what))
+}
+
+fn lib_write_ints(what: &str, s: &Snap) -> Result<Vec<i32>, String> {
+    lib_write_ints_hint(what, s, LIMIT_WORDS)
+}
+
+fn lib_write_bytes(what: &str, s: &Snap, hint: usize) -> Result<Vec<u8>, String> {
+    let attempt = |words: usize| {
+        guard(|| {
+            let mut out: Vec<u8> = Vec::with_capacity(5 * words);
+            let mut buf = Vec::new();
+            let r = with_packer(&mut out, |p| s.write(&mut buf, p).map(|b| b.len()));
+            r.map(|_| out)
+        })
+        .map_err(|p| format!("{}: write: {}", what, p))
+    };
+    let first = (hint + 4).min(LIMIT_WORDS);
+    if let Ok(v) = attempt(first)? {
+        return Ok(v);
+    }
+    if first < LIMIT_WORDS {
+        if let Ok(v) = attempt(LIMIT_WORDS)? {
+            return Ok(v);
+        }
+    }
+    Err(format!("{}: write fails with 5 bytes of room per word of a 64 KiB snapshot", what))
+}
+
+fn lib_delta_write(what: &str, d: &Delta, hint: usize) -> Result<Vec<i32>, String> {
+    // a delta read from the wire is bounded by its input only, not by the snapshot limits
+    let full = (3 + LIMIT_ITEMS * 4 + 2 * LIMIT_WORDS).max(hint + 4);
+    let attempt = |words: usize| {
+        guard(|| {
+            let mut out = vec![0i32; words];
+            let n = d.write_to_ints(|_| None, &mut out).map(|w| w.len());
+            n.map(|n| {
+                out.truncate(n);
+                out
+            })
+        })
+        .map_err(|p| format!("{}: Delta::write_to_ints: {}", what, p))
+    };
+    let first = (hint + 4).min(full);
+    if let Ok(v) = attempt(first)? {
+        return Ok(v);
+    }
+    if first < full {
+        if let Ok(v) = attempt(full)? {
+            return Ok(v);
+        }
+    }
+    Err(format!("{}: Delta::write_to_ints does not fit", what))
+}
+
+// ---------------------------------------------------------------------------
+// What is demanded of an accepted snapshot
+
+#[derive(Clone, Debug, Default)]
+pub struct Report {
+    pub accepted: bool,
+    pub err: Option<&'static str>,
+    /// accepted although the input is not the canonical serialisation of its content
+    pub hostile: bool,
+    pub items: usize,
+    pub words: usize,
+    pub registry: usize,
+    pub high_types: bool,
+    pub warnings: u32,
+}
+
+fn expected_typed(m: &Items) -> Vec<(TypeId, u16, Vec<i32>)> {
+    let reg: BTreeMap<u16, [i32; 4]> = registry(m).into_iter().collect();
+    let mut out = Vec::new();
+    for (&k, d) in m {
+        let t = key_type(k);
+        if t == 0 {
+            continue;
+        }
+        let ty = if t < 0x4000 {
+            TypeId::Ordinal(t)
+        } else {
+            match reg.get(&t) {
+                Some(u) => TypeId::Uuid(words_uuid(u)),
+                None => continue,
+            }
+        };
+        out.push((ty, key_id(k), d.clone()));
+    }
+    out.sort();
+    out
+}
+
+fn words_uuid(w: &[i32; 4]) -> Uuid {
+    let mut b = [0u8; 16];
+    for (i, x) in w.iter().enumerate() {
+        b[4 * i..4 * i + 4].copy_from_slice(&x.to_be_bytes());
+    }
+    Uuid::from_bytes(b)
+}
+
+fn model_crc(m: &Items) -> i32 {
+    m.values().flatten().fold(0i32, |s, &a| s.wrapping_add(a))
+}
+
+/// Checks on one accepted snapshot `s` whose content must be `m`.
+pub fn check_accepted(k: &Known, what: &str, s: &Snap, m: &Items, deep: bool) -> Result<(), String> {
+    // content, limits, write_to_ints
+    let hint = model_words(m);
+    let canon = lib_write_ints_hint(what, s, hint)?;
+    let expect = model_serialize(m);
+    ensure!(
+        canon == expect,
+        "{}: content differs from the documented reading of the input: written {:?}, expected {:?}",
+        what,
+        clip(&canon),
+        clip(&expect)
+    );
+    ensure!(canon.len() >= 2, "{}: written form shorter than a header", what);
+    ensure!(
+        canon[1] >= 0 && canon[1] as usize <= LIMIT_ITEMS,
+        "{}: accepted snapshot holds {} items",
+        what,
+        canon[1]
+    );
+    ensure!(
+        canon.len() * 4 <= LIMIT_BYTES,
+        "{}: accepted snapshot serialises to {} bytes",
+        what,
+        canon.len() * 4
+    );
+    // crc
+    let crc = guard(|| s.crc()).map_err(|p| format!("{}: crc: {}", what, p))?;
+    ensure_eq!(crc, model_crc(m), "{}: crc", what);
+    // enumerate
+    let typed = guard(|| {
+        set_fuel(2 * LIMIT_ITEMS as i64 + 16);
+        let it = s.items();
+        let announced = it.len();
+        let mut v = Vec::new();
+        for i in it {
+            burn();
+            v.push((i.type_id, i.id, i.data.to_vec()));
+        }
+        unlimited_fuel();
+        (announced, v)
+    });
+    unlimited_fuel();
+    let (announced, mut typed) = typed.map_err(|p| format!("{}: items(): {}", what, p))?;
+    ensure_eq!(announced, typed.len(), "{}: items().len() vs. items yielded", what);
+    typed.sort();
+    let exp_typed = expected_typed(m);
+    ensure!(
+        typed == exp_typed,
+        "{}: items() yields {:?}, expected {:?}",
+        what,
+        clip(&typed),
+        clip(&exp_typed)
+    );
+    // look-ups
+    let mut probes: Vec<u32> = m.keys().copied().take(24).collect();
+    probes.extend(m.keys().rev().copied().take(8));
+    let extra: Vec<u32> = probes.iter().map(|k| k ^ 1).chain([mk_key(1, 0), mk_key(0x3fff, 0xffff)]).collect();
+    probes.extend(extra);
+    for key in probes {
+        let (t, id) = (key_type(key), key_id(key));
+        if t == 0 || t >= 0x4000 {
+            continue;
+        }
+        let got = guard(|| s.item(TypeId::Ordinal(t), id).map(|d| d.to_vec()))
+            .map_err(|p| format!("{}: item({}, {}): {}", what, t, id, p))?;
+        ensure!(
+            got.as_ref() == m.get(&key),
+            "{}: item({}, {}) = {:?}, expected {:?}",
+            what,
+            t,
+            id,
+            got,
+            m.get(&key)
+        );
+    }
+    let reg = registry(m);
+    for (tnum, u) in reg.iter().take(8) {
+        let uuid = words_uuid(u);
+        for id in [0u16, 1, *tnum] {
+            // the value is C10's business (type numbers of parsed registries); here: returns
+            guard(|| s.item(TypeId::Uuid(uuid), id).map(|d| d.len()))
+                .map_err(|p| format!("{}: item(uuid of registry entry {}, {}): {}", what, tnum, id, p))?;
+        }
+    }
+    guard(|| s.item(TypeId::Uuid(Uuid::from_bytes([0xee; 16])), 0).is_some())
+        .map_err(|p| format!("{}: item(unknown uuid): {}", what, p))?;
+    // both wire forms and back
+    let bytes = lib_write_bytes(what, s, hint)?;
+    ensure!(
+        bytes == varints(&canon),
+        "{}: write() is not the varint form of write_to_ints()",
+        what
+    );
+    {
+        // a registry item longer than a uuid is accepted with a warning, also the second time
+        let long_reg = m.range(0..0x1_0000u32).any(|(_, d)| d.len() > 4);
+        let allowed: u32 = if long_reg { 1 << 8 } else { 0 };
+        let (s2, r, w) = lib_snap_from_ints(&canon)?;
+        ensure!(r.is_ok(), "{}: reading the written ints back fails with {:?}", what, r);
+        ensure!(w.kinds & !allowed == 0, "{}: reading the written ints back warns (kinds {:#x})", what, w.kinds);
+        let again = lib_write_ints_hint(what, &s2, hint)?;
+        ensure!(again == canon, "{}: snapshot read back from its ints differs", what);
+        ensure_eq!(s2.crc(), crc, "{}: crc after reading back", what);
+        let (s3, r, w) = lib_snap_from_bytes(&bytes)?;
+        ensure!(r.is_ok(), "{}: reading the written bytes back fails with {:?}", what, r);
+        ensure!(w.kinds & !allowed == 0, "{}: reading the written bytes back warns (kinds {:#x})", what, w.kinds);
+        let again = lib_write_ints_hint(what, &s3, hint)?;
+        ensure!(again == canon, "{}: snapshot read back from its bytes differs", what);
+    }
+    if deep {
+        let empty = Snap::empty();
+        let em = Items::new();
+        check_pair(k, &format!("{} -> empty", what), s, m, &empty, &em)?;
+        check_pair(k, &format!("empty -> {}", what), &empty, &em, s, m)?;
+        check_recycle(k, what, s, m)?;
+    }
+    Ok(())
+}
+
+fn clip<T: std::fmt::Debug>(v: &[T]) -> String {
+    if v.len() <= 48 {
+        format!("{:?}", v)
+    } else {
+        format!("{:?}.. ({} elements)", &v[..48], v.len())
+    }
+}
+
+/// `Delta::create(a, b)`, through the wire, applied to `a`, must give `b`.
+pub fn check_pair(k: &Known, what: &str, a: &Snap, am: &Items, b: &Snap, bm: &Items) -> Result<(), String> {
+    let mismatch = am.iter().any(|(key, d)| bm.get(key).map(|e| e.len() != d.len()).unwrap_or(false));
+    if mismatch && k.create_mismatch {
+        excluded();
+        return Ok(());
+    }
+    let d = guard(|| {
+        let mut d = Delta::new();
+        d.create(a, b);
+        d
+    })
+    .map_err(|p| format!("{}: Delta::create on two accepted snapshots: {}", what, p))?;
+    let wire = lib_delta_write(what, &d, am.len() + 3 * bm.len() + model_words(bm) + 3)?;
+    let (d2, r, w) = lib_delta_from_ints(Table::None, &wire)?;
+    ensure!(r.is_ok(), "{}: created delta does not read back: {:?}", what, r);
+    ensure!(w.n == 0, "{}: created delta reads back with warnings (kinds {:#x})", what, w.kinds);
+    let (res, r, _) = lib_apply(a, model_words(am), &d2, wire.len())?;
+    ensure!(r.is_ok(), "{}: applying the created delta fails with {:?}", what, r);
+    let got = lib_write_ints_hint(what, &res, model_words(bm))?;
+    let expect = model_serialize(bm);
+    ensure!(
+        got == expect,
+        "{}: create + apply does not reproduce the target: {:?} vs {:?}",
+        what,
+        clip(&got),
+        clip(&expect)
+    );
+    Ok(())
+}
+
+const FRESH: [[u8; 16]; 3] = [[0xf1; 16], [0xf2; 16], [0xf3; 16]];
+
+#[derive(Clone, Copy, Debug, Default)]
+pub struct RecycleClass {
+    /// a registry id below 0x4000 (a uuid type whose number is an ordinal, or 0)
+    pub low: bool,
+    /// ... or push it to 0x7f00 and beyond
+    pub ladder: bool,
+    /// items of type >= 0x8000 hide the registry from `recycle` while the registry holds 0x4000..0x4003
+    pub high: bool,
+    /// the chain of registry ids from 0x4000 on (steps < 256) ends at 0x7f00 or later: a builder may
+    /// run out of type numbers
+    pub exhaustible: bool,
+}
+
+/// Input classes of the recycle findings, described by what the registry ids look like: the
+/// "next free type number" is the end of the chain of registry ids that starts at 0x4000 and
+/// continues while the next id is less than 256 away.
+pub fn recycle_class(m: &Items) -> RecycleClass {
+    let high = m.keys().any(|&key| key_type(key) >= 0x8000);
+    let reg_ids: Vec<u32> = m.range(0..0x1_0000u32).map(|(k, _)| *k).collect();
+    let low = reg_ids.iter().any(|&id| id < 0x4000);
+    let mut next: u32 = 0x4000;
+    for &id in &reg_ids {
+        if id >= 0x4000 && id < next + 256 {
+            next = id + 1;
+        }
+    }
+    let exhaustible = next >= 0x7f00;
+    if high {
+        return RecycleClass {
+            low,
+            ladder: false,
+            high: reg_ids.iter().any(|id| (0x4000..0x4004).contains(id)),
+            exhaustible,
+        };
+    }
+    RecycleClass {
+        low,
+        ladder: exhaustible,
+        high: false,
+        exhaustible,
+    }
+}
+
+/// recycle -> add items -> finish on a clone of an accepted snapshot.
+pub fn check_recycle(k: &Known, what: &str, s: &Snap, m: &Items) -> Result<(), String> {
+    let reg = registry(m);
+    let cls = recycle_class(m);
+    if (cls.low && k.recycle_low)
+        || (cls.ladder && k.recycle_ladder)
+        || (cls.high && k.recycle_high)
+        || (reg.len() >= 2 && k.recycle_uuid)
+    {
+        excluded();
+        return Ok(());
+    }
+    let add_known = !reg.is_empty() && !k.recycle_uuid;
+    if !reg.is_empty() && k.recycle_uuid {
+        excluded();
+    }
+    let reg_uuids: BTreeSet<Uuid> = reg.iter().map(|r| words_uuid(&r.1)).collect();
+    let fresh = FRESH
+        .iter()
+        .map(|b| Uuid::from_bytes(*b))
+        .find(|u| !reg_uuids.contains(u))
+        .unwrap_or_else(|| Uuid::from_bytes([0xf4; 16]));
+    let known_uuid = reg.first().map(|r| words_uuid(&r.1));
+    let r = guard(|| {
+        let mut b = s.clone().recycle();
+        let r1 = b.add_item(TypeId::Ordinal(1), 7, &[1, 2, 3]);
+        let r2 = b.add_item(TypeId::Uuid(fresh), 9, &[4, 5]);
+        let r3 = match (add_known, known_uuid) {
+            (true, Some(u)) => Some(b.add_item(TypeId::Uuid(u), 3, &[6])),
+            _ => None,
+        };
+        let r4 = b.add_item(TypeId::Uuid(fresh), 9, &[4, 5]);
+        (b.finish(), r1, r2, r3, r4)
+    })
+    .map_err(|p| format!("{}: recycle / add_item / finish: {}", what, p))?;
+    let (s2, r1, r2, r3, r4) = r;
+    let roomy = reg.len() + 8 <= LIMIT_ITEMS;
+    if roomy {
+        ensure!(r1.is_ok(), "{}: after recycle, add_item(1, 7) fails with {:?}", what, r1);
+        // where the registry ids climb to the end of the extended range there may be no type number
+        // left to hand out: refusing is fine there, anything else must work
+        ensure!(
+            r2.is_ok() || (cls.exhaustible && r2 == Err(BuilderError::TooManyItems)),
+            "{}: after recycle, add_item(new uuid, 9) fails with {:?}",
+            what,
+            r2
+        );
+        if let Some(r3) = &r3 {
+            ensure!(
+                r3.is_ok() || (cls.exhaustible && *r3 == Err(BuilderError::TooManyItems)),
+                "{}: after recycle, add_item(known uuid, 3) fails with {:?}",
+                what,
+                r3
+            );
+        }
+        ensure!(
+            if r2.is_ok() { r4 == Err(BuilderError::DuplicateKey) } else { r4.is_err() },
+            "{}: after recycle, adding the same key twice gives {:?}",
+            what,
+            r4
+        );
+    }
+    // the finished snapshot is again subject to everything (content: whatever it serialises to)
+    let what2 = format!("{} (recycled)", what);
+    let canon = lib_write_ints(&what2, &s2)?;
+    let m2 = match model_snap(&canon) {
+        Verdict::Accept(m2) => m2,
+        Verdict::Either(m2) => m2,
+        Verdict::Reject(why) => {
+            return Err(format!(
+                "{}: the snapshot built after recycle serialises to something that must be refused ({}): {:?}",
+                what,
+                why,
+                clip(&canon)
+            ))
+        }
+    };
+    check_accepted(k, &what2, &s2, &m2, false)?;
+    if roomy {
+        let got = guard(|| s2.item(TypeId::Ordinal(1), 7).map(|d| d.to_vec())).map_err(|p| format!("{}: item: {}", what2, p))?;
+        ensure!(got.as_deref() == Some(&[1, 2, 3][..]), "{}: item(1, 7) = {:?}", what2, got);
+        let got = guard(|| s2.item(TypeId::Uuid(fresh), 9).map(|d| d.to_vec())).map_err(|p| format!("{}: item: {}", what2, p))?;
+        ensure!(
+            got.as_deref() == if r2.is_ok() { Some(&[4, 5][..]) } else { None },
+            "{}: item(new uuid, 9) = {:?}",
+            what2,
+            got
+        );
+    }
+    Ok(())
+}
+
+// ---------------------------------------------------------------------------
+// Oracle entry points (also meant for the fuzz targets)
+
+fn judge_snap(
+    k: &Known,
+    what: &str,
+    op: usize,
+    s: &Snap,
+    r: &Result<(), Error>,
+    verdict: &Verdict<Items>,
+    warnings: &Sink,
+    deep: bool,
+) -> Result<Report, String> {
+    let mut rep = Report {
+        warnings: warnings.kinds,
+        ..Report::default()
+    };
+    match (r, verdict) {
+        (Err(e), Verdict::Accept(m)) => Err(format!(
+            "{}: refused with {:?} although the input is well-formed per doc/snapshot.md and within the limits ({} items, {} bytes)",
+            what,
+            e,
+            m.len(),
+            model_words(m) * 4
+        )),
+        (Ok(()), Verdict::Reject(why)) => {
+            let became = match lib_write_ints(what, s) {
+                Ok(canon) => clip(&canon),
+                Err(e) => format!("<{}>", e),
+            };
+            Err(format!(
+                "{}: accepted an input that must be refused ({}); it became {}",
+                what, why, became
+            ))
+        }
+        (Err(e), _) => {
+            rep.err = Some(note_err(op, e));
+            Ok(rep)
+        }
+        (Ok(()), Verdict::Accept(m)) | (Ok(()), Verdict::Either(m)) => {
+            check_accepted(k, what, s, m, deep)?;
+            rep.accepted = true;
+            rep.items = m.len();
+            rep.words = model_words(m);
+            rep.registry = registry(m).len();
+            rep.high_types = m.keys().any(|&key| key_type(key) >= 0x8000);
+            Ok(rep)
+        }
+    }
+}
+
+/// Snapshot from words: total, bounded, agrees with the reference reader, usable afterwards.
+pub fn oracle_snap_ints(k: &Known, ints: &[i32], deep: bool) -> Result<Report, String> {
+    VARIANTS.fetch_add(1, Ordering::Relaxed);
+    let (s, r, w) = lib_snap_from_ints(ints)?;
+    let verdict = model_snap(ints);
+    let mut rep = judge_snap(k, "Snap::read_from_ints", 0, &s, &r, &verdict, &w, deep)?;
+    if rep.accepted {
+        if let Verdict::Accept(m) | Verdict::Either(m) = &verdict {
+            rep.hostile = model_serialize(m) != ints;
+        }
+    }
+    Ok(rep)
+}
+
+/// Snapshot from bytes (varint form).
+pub fn oracle_snap_bytes(k: &Known, bytes: &[u8], deep: bool) -> Result<Report, String> {
+    VARIANTS.fetch_add(1, Ordering::Relaxed);
+    let (s, r, w) = lib_snap_from_bytes(bytes)?;
+    let (ints, _) = decode_varints(bytes);
+    let verdict = model_snap(&ints);
+    let mut rep = judge_snap(k, "Snap::read", 0, &s, &r, &verdict, &w, deep)?;
+    if rep.accepted {
+        if let Verdict::Accept(m) | Verdict::Either(m) = &verdict {
+            rep.hostile = varints(&model_serialize(m)) != bytes;
+        }
+    }
+    Ok(rep)
+}
+
+#[derive(Clone, Debug, Default)]
+pub struct DReport {
+    pub parse_err: Option<&'static str>,
+    pub parsed: bool,
+    pub hostile: bool,
+    pub deleted: usize,
+    pub updates: usize,
+    pub warnings: u32,
+    pub from_items: usize,
+    pub applied: Option<Report>,
+    pub applied_empty: Option<Report>,
+    pub skipped_known: bool,
+}
+
+fn judge_delta(
+    what: &str,
+    d: &Delta,
+    r: &Result<(), Error>,
+    verdict: &Verdict<DeltaModel>,
+    rep: &mut DReport,
+) -> Result<Option<DeltaModel>, String> {
+    match (r, verdict) {
+        (Err(e), Verdict::Accept(m)) => Err(format!(
+            "{}: refused with {:?} although the input is a well-formed delta ({} removals, {} item deltas)",
+            what,
+            e,
+            m.deleted.len(),
+            m.updates.len()
+        )),
+        (Ok(()), Verdict::Reject(why)) => Err(format!(
+            "{}: accepted an input that must be refused ({})",
+            what, why
+        )),
+        (Err(e), _) => {
+            rep.parse_err = Some(note_err(1, e));
+            Ok(None)
+        }
+        (Ok(()), Verdict::Accept(m)) | (Ok(()), Verdict::Either(m)) => {
+            // content: through the delta's own writer with explicit sizes
+            let wire = lib_delta_write(what, d, m.words())?;
+            match model_delta(&wire, Table::None) {
+                Verdict::Accept(back) | Verdict::Either(back) => {
+                    ensure!(
+                        back == *m,
+                        "{}: delta content differs from the documented reading: holds {:?}, expected {:?}",
+                        what,
+                        back,
+                        m
+                    );
+                    ensure!(
+                        wire[0] as usize == m.deleted.len() && wire[1] as usize == m.updates.len() && wire[2] == 0,
+                        "{}: written delta header {:?} for {} removals and {} item deltas",
+                        what,
+                        &wire[..3],
+                        m.deleted.len(),
+                        m.updates.len()
+                    );
+                }
+                Verdict::Reject(why) => {
+                    return Err(format!(
+                        "{}: the accepted delta writes out as something malformed ({}): {}",
+                        what,
+                        why,
+                        clip(&wire)
+                    ))
+                }
+            }
+            rep.parsed = true;
+            rep.deleted = m.deleted.len();
+            rep.updates = m.updates.len();
+            Ok(Some(m.clone()))
+        }
+    }
+}
+
+fn apply_and_judge(
+    k: &Known,
+    what: &str,
+    from: &Snap,
+    fm: &Items,
+    d: &Delta,
+    dm: &DeltaModel,
+    deep: bool,
+    skipped: &mut bool,
+) -> Result<Option<Report>, String> {
+    let (verdict, mismatch_live) = model_apply(fm, dm);
+    if mismatch_live && k.apply_mismatch {
+        excluded();
+        *skipped = true;
+        return Ok(None);
+    }
+    let (res, r, w) = lib_apply(from, model_words(fm), d, dm.words())?;
+    let rep = judge_snap(k, what, 2, &res, &r, &verdict, &w, deep)?;
+    if deep && rep.accepted {
+        if let Verdict::Accept(rm) | Verdict::Either(rm) = &verdict {
+            check_pair(k, &format!("{}: result -> old", what), &res, rm, from, fm)?;
+            check_pair(k, &format!("{}: old -> result", what), from, fm, &res, rm)?;
+        }
+    }
+    Ok(Some(rep))
+}
+
+fn parse_from(from: &[i32]) -> Result<(Snap, Items), String> {
+    let (s, r, _) = lib_snap_from_ints(from)?;
+    match (r, model_snap(from)) {
+        (Ok(()), Verdict::Accept(m)) | (Ok(()), Verdict::Either(m)) => Ok((s, m)),
+        // disagreements are the snapshot oracle's business
+        _ => Ok((Snap::empty(), Items::new())),
+    }
+}
+
+fn delta_common(
+    k: &Known,
+    what: &str,
+    d: &Delta,
+    r: &Result<(), Error>,
+    w: &Sink,
+    verdict: &Verdict<DeltaModel>,
+    from: &[i32],
+    deep: bool,
+) -> Result<DReport, String> {
+    let mut rep = DReport {
+        warnings: w.kinds,
+        ..DReport::default()
+    };
+    let Some(dm) = judge_delta(what, d, r, verdict, &mut rep)? else {
+        return Ok(rep);
+    };
+    let (fs, fm) = parse_from(from)?;
+    rep.from_items = fm.len();
+    let mut skipped = false;
+    rep.applied = apply_and_judge(k, "read_with_delta(old, delta)", &fs, &fm, d, &dm, deep, &mut skipped)?;
+    if !fm.is_empty() {
+        rep.applied_empty = apply_and_judge(
+            k,
+            "read_with_delta(empty, delta)",
+            &Snap::empty(),
+            &Items::new(),
+            d,
+            &dm,
+            deep,
+            &mut skipped,
+        )?;
+    }
+    rep.skipped_known = skipped;
+    Ok(rep)
+}
+
+/// Delta from words, applied to the snapshot given as words (the empty one if that is refused) and to the empty one.
+pub fn oracle_delta_ints(k: &Known, table: Table, delta: &[i32], from: &[i32], deep: bool) -> Result<DReport, String> {
+    VARIANTS.fetch_add(1, Ordering::Relaxed);
+    let (d, r, w) = lib_delta_from_ints(table, delta)?;
+    let verdict = model_delta(delta, table);
+    let mut rep = delta_common(k, "Delta::read_from_ints", &d, &r, &w, &verdict, from, deep)?;
+    rep.hostile = rep.parsed && w.n > 0;
+    Ok(rep)
+}
+
+/// Delta from bytes (varint form).
+pub fn oracle_delta_bytes(k: &Known, table: Table, delta: &[u8], from: &[i32], deep: bool) -> Result<DReport, String> {
+    VARIANTS.fetch_add(1, Ordering::Relaxed);
+    let (d, r, w) = lib_delta_from_bytes(table, delta)?;
+    let (ints, incomplete) = decode_varints(delta);
+    let verdict = if incomplete {
+        Verdict::Reject("input ends inside an integer")
+    } else {
+        model_delta(&ints, table)
+    };
+    let mut rep = delta_common(k, "Delta::read", &d, &r, &w, &verdict, from, deep)?;
+    rep.hostile = rep.parsed && w.n > 0;
+    Ok(rep)
+}
+
+// ---------------------------------------------------------------------------
+// Structured inputs
+
+const UUID_POOL: [[i32; 4]; 5] = [
+    [0x1a3fcc94, 0x1e53461e, -0x6ed1dee0, 0x0882024b],
+    [1, 2, 3, 4],
+    [-1, -1, -1, -1],
+    [0, 0, 0, 0],
+    [i32::MIN, i32::MAX, 0, 1],
+];
+
+#[derive(Clone, Debug, Hash, Serialize, Deserialize)]
+pub enum Chunk {
+    One { ty: u16, id: u16, data: Vec<i32> },
+    /// `count` items (ty, id0 + i) of `len` words each
+    Run { ty: u16, id0: u16, count: u16, len: u8, fill: i32 },
+    /// one item of `len` words
+    Big { ty: u16, id: u16, len: u16, fill: i32 },
+    /// registry entry (0, tnum) holding the first `len` words of a pool uuid (padded with 7s beyond 4),
+    /// followed by `uses` items of type `tnum`
+    Reg { tnum: u16, which: u8, len: u8, uses: u8 },
+    /// `count` registry entries (0, start + i * step) with distinct uuids
+    Ladder { start: u16, step: u16, count: u16 },
+}
+
+#[derive(Clone, Debug, Hash, Serialize, Deserialize)]
+pub struct SnapSpec {
+    pub chunks: Vec<Chunk>,
+}
+
+pub fn expand(spec: &SnapSpec) -> Vec<(u32, Vec<i32>)> {
+    let mut out = Vec::new();
+    for c in &spec.chunks {
+        match c {
+            Chunk::One { ty, id, data } => out.push((mk_key(*ty, *id), data.clone())),
+            Chunk::Run { ty, id0, count, len, fill } => {
+                for i in 0..*count {
+                    let mut d = vec![*fill; *len as usize];
+                    if let Some(x) = d.first_mut() {
+                        *x = i as i32;
+                    }
+                    out.push((mk_key(*ty, id0.wrapping_add(i)), d));
+                }
+            }
+            Chunk::Big { ty, id, len, fill } => out.push((mk_key(*ty, *id), vec![*fill; *len as usize])),
+            Chunk::Reg { tnum, which, len, uses } => {
+                let u = UUID_POOL[*which as usize % UUID_POOL.len()];
+                let mut d: Vec<i32> = u.to_vec();
+                d.resize((*len as usize).max(4), 7);
+                d.truncate(*len as usize);
+                out.push((mk_key(0, *tnum), d));
+                for i in 0..*uses {
+                    out.push((mk_key(*tnum, i as u16), vec![i as i32, 5]));
+                }
+            }
+            Chunk::Ladder { start, step, count } => {
+                for i in 0..*count {
+                    let id = start.wrapping_add(step.wrapping_mul(i));
+                    out.push((mk_key(0, id), vec![0x4c4144, i as i32, *start as i32, *step as i32]));
+                }
+            }
+        }
+    }
+    out
+}
+
+fn dedup(items: Vec<(u32, Vec<i32>)>) -> Vec<(u32, Vec<i32>)> {
+    let mut seen = BTreeSet::new();
+    items.into_iter().filter(|(k, _)| seen.insert(*k)).collect()
+}
+
+/// Repairs what would make the reader refuse a (deduplicated) item list for registry reasons:
+/// short registry items, repeated uuids, extended types without registry entry.
+pub fn make_acceptable(items: Vec<(u32, Vec<i32>)>) -> Vec<(u32, Vec<i32>)> {
+    let mut items = dedup(items);
+    let mut uuids = BTreeSet::new();
+    for (k, d) in items.iter_mut() {
+        if key_type(*k) == 0 {
+            if d.len() < 4 {
+                d.resize(4, 0x55);
+            }
+            while !uuids.insert([d[0], d[1], d[2], d[3]]) {
+                d[3] = d[3].wrapping_add(1);
+            }
+        }
+    }
+    let have: BTreeSet<u32> = items.iter().map(|(k, _)| *k).collect();
+    let mut added = BTreeSet::new();
+    for i in 0..items.len() {
+        let t = key_type(items[i].0);
+        if t >= 0x4000 && !have.contains(&mk_key(0, t)) && added.insert(t) {
+            let mut u = [0x5555, t as i32, 1, 2];
+            while !uuids.insert(u) {
+                u[3] += 1;
+            }
+            items.push((mk_key(0, t), u.to_vec()));
+        }
+    }
+    items
+}
+
+/// Positions of the structural fields of a wire form, by group.
+#[derive(Clone, Debug, Default)]
+pub struct Layout {
+    pub groups: Vec<Vec<usize>>,
+    pub count: i32,
+}
+
+/// Our own writer: items in the given order, duplicates and all.
+pub fn snap_wire(items: &[(u32, Vec<i32>)]) -> (Vec<i32>, Layout) {
+    let n = items.len();
+    let data: usize = items.iter().map(|(_, d)| d.len() + 1).sum();
+    let mut out = Vec::with_capacity(2 + n + data);
+    out.push((data as i64 * 4) as i32);
+    out.push(n as i32);
+    let mut lay = Layout {
+        groups: vec![vec![0], vec![1], vec![], vec![], vec![]],
+        count: n as i32,
+    };
+    let mut off = 0usize;
+    for (i, (_, d)) in items.iter().enumerate() {
+        lay.groups[2].push(2 + i);
+        out.push((off as i64 * 4) as i32);
+        off += d.len() + 1;
+    }
+    for (k, d) in items {
+        lay.groups[3].push(out.len());
+        out.push(*k as i32);
+        for (j, &x) in d.iter().enumerate() {
+            if j < 4 {
+                lay.groups[4].push(out.len());
+            }
+            out.push(x);
+        }
+    }
+    (out, lay)
+}
+
+#[derive(Clone, Debug, Hash, Serialize, Deserialize)]
+pub enum Val {
+    Abs(i32),
+    Add(i32),
+    /// item / entry count of the structure plus this
+    Count(i32),
+    /// replace the upper 16 bits
+    Hi(u16),
+    /// replace the lower 16 bits
+    Lo(u16),
+}
+
+#[derive(Clone, Debug, Hash, Serialize, Deserialize)]
+pub enum Mutation {
+    /// set the `idx`-th field of structural group `group` (falls back to any word)
+    Set { group: u8, idx: u16, val: Val },
+    SetAny { idx: u16, val: Val },
+    Truncate { at: u16 },
+    Append { words: Vec<i32> },
+    Remove { at: u16 },
+    Insert { at: u16, word: i32 },
+    /// copy word `from` over word `to`
+    Copy { from: u16, to: u16 },
+}
+
+fn resolve(val: &Val, cur: i32, count: i32) -> i32 {
+    match val {
+        Val::Abs(x) => *x,
+        Val::Add(d) => cur.wrapping_add(*d),
+        Val::Count(d) => count.wrapping_add(*d),
+        Val::Hi(t) => (((*t as u32) << 16) | (cur as u32 & 0xffff)) as i32,
+        Val::Lo(i) => ((cur as u32 & 0xffff_0000) | *i as u32) as i32,
+    }
+}
+
+pub fn mutate(ints: &mut Vec<i32>, lay: &Layout, m: &Mutation) {
+    match m {
+        Mutation::Set { group, idx, val } => {
+            let g = &lay.groups[*group as usize % lay.groups.len()];
+            let pos = if g.is_empty() {
+                if ints.is_empty() {
+                    return;
+                }
+                pick(*idx, ints.len())
+            } else {
+                g[pick(*idx, g.len())]
+            };
+            if pos < ints.len() {
+                ints[pos] = resolve(val, ints[pos], lay.count);
+            }
+        }
+        Mutation::SetAny { idx, val } => {
+            if !ints.is_empty() {
+                let pos = pick(*idx, ints.len());
+                ints[pos] = resolve(val, ints[pos], lay.count);
+            }
+        }
+        Mutation::Truncate { at } => {
+            let l = pick(*at, ints.len() + 1);
+            ints.truncate(l);
+        }
+        Mutation::Append { words } => ints.extend_from_slice(words),
+        Mutation::Remove { at } => {
+            if !ints.is_empty() {
+                let pos = pick(*at, ints.len());
+                ints.remove(pos);
+            }
+        }
+        Mutation::Insert { at, word } => {
+            let pos = pick(*at, ints.len() + 1);
+            ints.insert(pos, *word);
+        }
+        Mutation::Copy { from, to } => {
+            if !ints.is_empty() {
+                let (a, b) = (pick(*from, ints.len()), pick(*to, ints.len()));
+                ints[b] = ints[a];
+            }
+        }
+    }
+}
+
+#[derive(Clone, Debug, Hash, Serialize, Deserialize)]
+pub enum ByteMut {
+    Truncate { at: u16 },
+    Set { at: u16, byte: u8 },
+    Append { bytes: Vec<u8> },
+    Remove { at: u16 },
+}
+
+pub fn mutate_bytes(b: &mut Vec<u8>, m: &ByteMut) {
+    match m {
+        ByteMut::Truncate { at } => {
+            let l = pick(*at, b.len() + 1);
+            b.truncate(l);
+        }
+        ByteMut::Set { at, byte } => {
+            if !b.is_empty() {
+                let p = pick(*at, b.len());
+                b[p] = *byte;
+            }
+        }
+        ByteMut::Append { bytes } => b.extend_from_slice(bytes),
+        ByteMut::Remove { at } => {
+            if !b.is_empty() {
+                let p = pick(*at, b.len());
+                b.remove(p);
+            }
+        }
+    }
+}
+
+#[derive(Clone, Debug, Hash, Serialize, Deserialize)]
+pub enum Wire {
+    Ints,
+    Bytes(Vec<ByteMut>),
+}
+
+#[derive(Clone, Debug, Hash, Serialize, Deserialize)]
+pub struct SnapCase {
+    pub spec: SnapSpec,
+    pub muts: Vec<Mutation>,
+    pub wire: Wire,
+}
+
+// --- deltas
+
+#[derive(Clone, Debug, Hash, Serialize, Deserialize)]
+pub enum KeySel {
+    Lit { ty: i32, id: i32 },
+    /// key of the `n`-th item of the old snapshot
+    From(u16),
+}
+
+#[derive(Clone, Debug, Hash, Serialize, Deserialize)]
+pub struct Upd {
+    pub key: KeySel,
+    pub data: Vec<i32>,
+    /// for `KeySel::From`: give the difference the size of the old item
+    pub match_len: bool,
+}
+
+#[derive(Clone, Debug, Hash, Serialize, Deserialize)]
+pub struct DeltaSpec {
+    pub deleted: Vec<KeySel>,
+    pub updates: Vec<Upd>,
+    pub nd_off: i32,
+    pub nu_off: i32,
+    pub pad: i32,
+}
+
+pub fn delta_wire(spec: &DeltaSpec, from: &[(u32, Vec<i32>)], table: Table) -> (Vec<i32>, Layout) {
+    let sel = |k: &KeySel| -> (i32, i32, Option<usize>) {
+        match k {
+            KeySel::Lit { ty, id } => (*ty, *id, None),
+            KeySel::From(n) => {
+                if from.is_empty() {
+                    (1, 0, None)
+                } else {
+                    let i = pick(*n, from.len());
+                    (key_type(from[i].0) as i32, key_id(from[i].0) as i32, Some(from[i].1.len()))
+                }
+            }
+        }
+    };
+    let mut lay = Layout {
+        groups: vec![vec![0], vec![1], vec![2], vec![], vec![], vec![], vec![], vec![]],
+        count: spec.updates.len() as i32,
+    };
+    let mut out = vec![
+        (spec.deleted.len() as i32).wrapping_add(spec.nd_off),
+        (spec.updates.len() as i32).wrapping_add(spec.nu_off),
+        spec.pad,
+    ];
+    for k in &spec.deleted {
+        let (ty, id, _) = sel(k);
+        lay.groups[3].push(out.len());
+        out.push(((ty as u32) << 16 | (id as u32 & 0xffff)) as i32);
+    }
+    for u in &spec.updates {
+        let (ty, id, old_len) = sel(&u.key);
+        let mut data = u.data.clone();
+        if let (true, Some(l)) = (u.match_len, old_len) {
+            data.resize(l, 1);
+        }
+        let pre = if (0..=0xffff).contains(&ty) { table_size(table, ty as u16) } else { None };
+        lay.groups[4].push(out.len());
+        out.push(ty);
+        lay.groups[5].push(out.len());
+        out.push(id);
+        match pre {
+            Some(s) if s <= 64 => data.resize(s as usize, 2),
+            Some(_) => {}
+            None => {
+                lay.groups[6].push(out.len());
+                out.push(data.len() as i32);
+            }
+        }
+        for (j, &x) in data.iter().enumerate() {
+            if j < 4 {
+                lay.groups[7].push(out.len());
+            }
+            out.push(x);
+        }
+    }
+    (out, lay)
+}
+
+#[derive(Clone, Debug, Hash, Serialize, Deserialize)]
+pub struct DeltaCase {
+    /// repair the old snapshot so that it is accepted (see `make_acceptable`)
+    pub fix_from: bool,
+    pub from: SnapSpec,
+    pub delta: DeltaSpec,
+    pub muts: Vec<Mutation>,
+    pub table: Table,
+    pub wire: Wire,
+}
+
+#[derive(Clone, Debug, Hash, Serialize, Deserialize)]
+pub struct PairCase {
+    pub a: SnapSpec,
+    pub b: SnapSpec,
+    /// keys of `a` (by index) that `b` holds too, with this data (`true`: resized to the size in `a`)
+    pub share: Vec<(u16, Vec<i32>, bool)>,
+}
+
+#[derive(Clone, Debug, Hash, Serialize, Deserialize)]
+pub struct RandomWords {
+    pub words: Vec<i32>,
+    pub table: Table,
+}
+
+#[derive(Clone, Debug, Hash, Serialize, Deserialize)]
+pub struct RandomBytes {
+    pub bytes: Vec<u8>,
+    pub table: Table,
+}
+
+// ---------------------------------------------------------------------------
+// Strategies
+
+const WORDS: [i32; 30] = [
+    0, 1, -1, 2, 3, 4, 5, 8, 12, 16, -4, i32::MIN, i32::MAX, 0x7fff_fffc, 1023, 1024, 1025, 16383, 16384, 16385,
+    65532, 65536, 65540, 0x3fff, 0x4000, 0x7fff, 0x8000, 0xffff, 0x10000, -0x8000,
+];
+const HALVES: [u16; 10] = [0, 1, 0x3fff, 0x4000, 0x4001, 0x40ff, 0x7fff, 0x8000, 0xfffe, 0xffff];
+
+fn word() -> BoxedStrategy<i32> {
+    prop_oneof![
+        4 => -3i32..=6,
+        3 => proptest::sample::select(&WORDS[..]),
+        1 => 0i32..70000,
+        2 => any::<i32>(),
+    ]
+    .boxed()
+}
+
+fn ty_strategy() -> BoxedStrategy<u16> {
+    prop_oneof![
+        5 => 1u16..=20,
+        2 => Just(0u16),
+        2 => proptest::sample::select(&[0x3fffu16, 0x4000, 0x4001, 0x40ff, 0x7fff, 0x8000, 0x8001, 0xffff][..]),
+        1 => proptest::sample::select(&[30u16, 31, 21][..]),
+        1 => any::<u16>(),
+    ]
+    .boxed()
+}
+
+fn id_strategy() -> BoxedStrategy<u16> {
+    prop_oneof![
+        5 => 0u16..6,
+        2 => proptest::sample::select(&[0u16, 1, 0xff, 0x100, 0x3fff, 0x4000, 0x4001, 0x40ff, 0x41fe, 0x7eff, 0x7f00, 0x7fff, 0x8000, 0xfffe, 0xffff][..]),
+        1 => any::<u16>(),
+    ]
+    .boxed()
+}
+
+fn data_strategy() -> BoxedStrategy<Vec<i32>> {
+    prop_oneof![
+        6 => proptest::collection::vec(word(), 0..=6),
+        1 => proptest::collection::vec(word(), 7..=30),
+        1 => (0usize..UUID_POOL.len(), 0usize..=6).prop_map(|(w, l)| {
+            let mut d = UUID_POOL[w].to_vec();
+            d.resize(l.max(4), 9);
+            d.truncate(l);
+            d
+        }),
+    ]
+    .boxed()
+}
+
+/// `hostile`: how much of the strange material (registry damage, ladders, bulk) to include
+fn chunk_strategy(hostile: bool) -> BoxedStrategy<Chunk> {
+    let one = (ty_strategy(), id_strategy(), data_strategy()).prop_map(|(ty, id, data)| Chunk::One { ty, id, data });
+    let table_item = (1u16..=20, id_strategy(), word(), any::<bool>()).prop_map(|(ty, id, fill, ok)| {
+        let l = SIZES_06[ty as usize] as usize;
+        Chunk::One { ty, id, data: vec![fill; if ok { l } else { l + 1 }] }
+    });
+    let reg = (
+        prop_oneof![6 => 0x4000u16..0x4004, 1 => proptest::sample::select(&[0x7fffu16, 0x8000, 0x8001, 0xffff][..]), 2 => id_strategy()],
+        0u8..UUID_POOL.len() as u8,
+        prop_oneof![8 => Just(4u8), 1 => 0u8..=3, 1 => 5u8..=6],
+        0u8..3,
+    )
+        .prop_map(|(tnum, which, len, uses)| Chunk::Reg { tnum, which, len, uses });
+    if !hostile {
+        return prop_oneof![6 => one, 2 => table_item, 2 => reg].boxed();
+    }
+    let run = (ty_strategy(), id_strategy(), prop_oneof![3 => 0u16..40, 1 => 1000u16..1040], 0u8..=16, word())
+        .prop_map(|(ty, id0, count, len, fill)| Chunk::Run { ty, id0, count, len, fill });
+    let big = (ty_strategy(), id_strategy(), prop_oneof![1 => 100u16..2000, 1 => 14000u16..17000], word())
+        .prop_map(|(ty, id, len, fill)| Chunk::Big { ty, id, len, fill });
+    let ladder = (
+        prop_oneof![2 => Just(0x4000u16), 1 => Just(0x40ffu16), 1 => id_strategy()],
+        prop_oneof![2 => 250u16..=257, 1 => 1u16..300],
+        prop_oneof![2 => 0u16..8, 1 => 60u16..70, 1 => 185u16..200],
+    )
+        .prop_map(|(start, step, count)| Chunk::Ladder { start, step, count });
+    prop_oneof![30 => one, 6 => table_item, 10 => reg, 3 => run, 1 => big, 2 => ladder].boxed()
+}
+
+fn spec_strategy(hostile: bool, max_chunks: usize) -> BoxedStrategy<SnapSpec> {
+    proptest::collection::vec(chunk_strategy(hostile), 0..=max_chunks)
+        .prop_map(|chunks| SnapSpec { chunks })
+        .boxed()
+}
+
+/// Snapshots whose serialised size lands within a few words of 64 KiB or whose item count is near 1024.
+fn limit_spec_strategy() -> BoxedStrategy<SnapSpec> {
+    let size = (proptest::collection::vec(chunk_strategy(false), 0..4), -3i32..=3, ty_strategy(), id_strategy()).prop_map(
+        |(chunks, d, ty, id)| {
+            let mut spec = SnapSpec { chunks };
+            let items = dedup(expand(&spec));
+            let used = 2 + 2 * (items.len() + 1) + items.iter().map(|(_, d)| d.len()).sum::<usize>();
+            let len = (LIMIT_WORDS as i32 - used as i32 + d).clamp(0, 17000) as u16;
+            spec.chunks.push(Chunk::Big { ty, id, len, fill: 1 });
+            spec
+        },
+    );
+    let count = (1u16..=20, 1018u16..=1030, 0u8..=14, proptest::collection::vec(chunk_strategy(false), 0..3)).prop_map(
+        |(ty, count, len, mut chunks)| {
+            chunks.push(Chunk::Run { ty, id0: 100, count, len, fill: 3 });
+            SnapSpec { chunks }
+        },
+    );
+    prop_oneof![size, count].boxed()
+}
+
+fn val_strategy() -> BoxedStrategy<Val> {
+    prop_oneof![
+        4 => proptest::sample::select(&WORDS[..]).prop_map(Val::Abs),
+        1 => any::<i32>().prop_map(Val::Abs),
+        3 => proptest::sample::select(&[1i32, -1, 4, -4, 2, 8, -8][..]).prop_map(Val::Add),
+        2 => (-2i32..=2).prop_map(Val::Count),
+        2 => proptest::sample::select(&HALVES[..]).prop_map(Val::Hi),
+        2 => proptest::sample::select(&HALVES[..]).prop_map(Val::Lo),
+    ]
+    .boxed()
+}
+
+fn mutation_strategy(groups: u8) -> BoxedStrategy<Mutation> {
+    prop_oneof![
+        8 => (0..groups, any::<u16>(), val_strategy()).prop_map(|(group, idx, val)| Mutation::Set { group, idx, val }),
+        2 => (any::<u16>(), val_strategy()).prop_map(|(idx, val)| Mutation::SetAny { idx, val }),
+        2 => any::<u16>().prop_map(|at| Mutation::Truncate { at }),
+        1 => proptest::collection::vec(word(), 1..5).prop_map(|words| Mutation::Append { words }),
+        1 => any::<u16>().prop_map(|at| Mutation::Remove { at }),
+        1 => (any::<u16>(), word()).prop_map(|(at, word)| Mutation::Insert { at, word }),
+        1 => (any::<u16>(), any::<u16>()).prop_map(|(from, to)| Mutation::Copy { from, to }),
+    ]
+    .boxed()
+}
+
+fn muts_strategy(groups: u8) -> BoxedStrategy<Vec<Mutation>> {
+    prop_oneof![
+        1 => Just(Vec::new()),
+        5 => proptest::collection::vec(mutation_strategy(groups), 1..=1),
+        2 => proptest::collection::vec(mutation_strategy(groups), 2..=3),
+    ]
+    .boxed()
+}
+
+fn byte_muts_strategy() -> BoxedStrategy<Vec<ByteMut>> {
+    let m = prop_oneof![
+        3 => any::<u16>().prop_map(|at| ByteMut::Truncate { at }),
+        3 => (any::<u16>(), prop_oneof![any::<u8>(), proptest::sample::select(&[0u8, 0x80, 0xff, 0x40, 0x7f, 0xc0][..])])
+            .prop_map(|(at, byte)| ByteMut::Set { at, byte }),
+        1 => proptest::collection::vec(any::<u8>(), 1..4).prop_map(|bytes| ByteMut::Append { bytes }),
+        1 => any::<u16>().prop_map(|at| ByteMut::Remove { at }),
+    ];
+    proptest::collection::vec(m, 0..=2).boxed()
+}
+
+fn snap_case_strategy(bytes: bool) -> BoxedStrategy<SnapCase> {
+    let spec = prop_oneof![8 => spec_strategy(true, 6), 1 => limit_spec_strategy()];
+    if bytes {
+        (spec, muts_strategy(5), byte_muts_strategy())
+            .prop_map(|(spec, muts, bm)| SnapCase { spec, muts, wire: Wire::Bytes(bm) })
+            .boxed()
+    } else {
+        (spec, muts_strategy(5)).prop_map(|(spec, muts)| SnapCase { spec, muts, wire: Wire::Ints }).boxed()
+    }
+}
+
+fn keysel_strategy() -> BoxedStrategy<KeySel> {
+    prop_oneof![
+        5 => any::<u16>().prop_map(KeySel::From),
+        4 => (ty_strategy(), id_strategy()).prop_map(|(ty, id)| KeySel::Lit { ty: ty as i32, id: id as i32 }),
+        1 => (word(), word()).prop_map(|(ty, id)| KeySel::Lit { ty, id }),
+    ]
+    .boxed()
+}
+
+fn delta_spec_strategy(max: usize) -> BoxedStrategy<DeltaSpec> {
+    let upd = (keysel_strategy(), data_strategy(), proptest::bool::weighted(0.7))
+        .prop_map(|(key, data, match_len)| Upd { key, data, match_len });
+    let off = || prop_oneof![8 => Just(0i32), 1 => -2i32..=2, 1 => word()];
+    (
+        proptest::collection::vec(keysel_strategy(), 0..=max),
+        proptest::collection::vec(upd, 0..=max),
+        off(),
+        off(),
+        prop_oneof![6 => Just(0i32), 1 => word()],
+    )
+        .prop_map(|(deleted, updates, nd_off, nu_off, pad)| DeltaSpec { deleted, updates, nd_off, nu_off, pad })
+        .boxed()
+}
+
+fn table_strategy() -> BoxedStrategy<Table> {
+    prop_oneof![4 => Just(Table::None), 4 => Just(Table::V06), 1 => Just(Table::Huge)].boxed()
+}
+
+fn delta_case_strategy(bytes: bool) -> BoxedStrategy<DeltaCase> {
+    let from = prop_oneof![10 => spec_strategy(false, 6), 2 => spec_strategy(true, 4), 1 => limit_spec_strategy()];
+    let wire = if bytes { byte_muts_strategy().prop_map(Wire::Bytes).boxed() } else { Just(Wire::Ints).boxed() };
+    (proptest::bool::weighted(0.85), from, delta_spec_strategy(5), muts_strategy(8), table_strategy(), wire)
+        .prop_map(|(fix_from, from, delta, muts, table, wire)| DeltaCase { fix_from, from, delta, muts, table, wire })
+        .boxed()
+}
+
+// ---------------------------------------------------------------------------
+// Case checks
+
+pub fn snap_case_ints(c: &SnapCase) -> Vec<i32> {
+    let items = expand(&c.spec);
+    let (mut ints, lay) = snap_wire(&items);
+    for m in &c.muts {
+        mutate(&mut ints, &lay, m);
+    }
+    ints
+}
+
+fn snap_outcome(rep: &Report, input_len: usize) -> Outcome {
+    let nt = input_len > 0 && (rep.err.is_some() || (rep.accepted && rep.hostile));
+    let mut o = Outcome::nt(nt)
+        .class_if(rep.accepted, "accepted")
+        .class_if(rep.accepted && rep.hostile, "accepted_noncanonical")
+        .class_if(rep.accepted && rep.items >= 1000, "accepted_ge_1000_items")
+        .class_if(rep.accepted && rep.words * 4 >= 60 * 1024, "accepted_ge_60KiB")
+        .class_if(rep.accepted && rep.registry > 0, "accepted_with_registry")
+        .class_if(rep.accepted && rep.registry >= 2, "accepted_with_2plus_uuid_types")
+        .class_if(rep.accepted && rep.high_types, "accepted_with_type_ge_0x8000")
+        .class_if(rep.accepted && rep.warnings != 0, "accepted_with_warning");
+    if let Some(e) = rep.err {
+        o = o.class(e);
+    }
+    o
+}
+
+fn check_snap_case(k: &Known, c: &SnapCase) -> PResult {
+    let ints = snap_case_ints(c);
+    match &c.wire {
+        Wire::Ints => {
+            let rep = oracle_snap_ints(k, &ints, true)?;
+            Ok(snap_outcome(&rep, ints.len()))
+        }
+        Wire::Bytes(bm) => {
+            let mut bytes = varints(&ints);
+            for m in bm {
+                mutate_bytes(&mut bytes, m);
+            }
+            let rep = oracle_snap_bytes(k, &bytes, true)?;
+            Ok(snap_outcome(&rep, bytes.len()))
+        }
+    }
+}
+
+fn delta_outcome(rep: &DReport, input_len: usize) -> Outcome {
+    let applied_ok = rep.applied.as_ref().map(|r| r.accepted).unwrap_or(false);
+    let applied_err = rep.applied.as_ref().and_then(|r| r.err).or(rep.applied_empty.as_ref().and_then(|r| r.err));
+    let nt = input_len > 0 && (rep.parse_err.is_some() || applied_err.is_some() || (rep.parsed && (rep.hostile || rep.from_items > 0)));
+    let mut o = Outcome::nt(nt)
+        .class_if(rep.parsed, "delta_accepted")
+        .class_if(rep.parsed && rep.warnings != 0, "delta_accepted_with_warning")
+        .class_if(rep.parsed && rep.warnings & (1 << 3) != 0, "warn_duplicate_update")
+        .class_if(rep.parsed && rep.warnings & (1 << 5) != 0, "warn_delete_update")
+        .class_if(rep.parsed && rep.warnings & (1 << 2) != 0, "warn_duplicate_delete")
+        .class_if(rep.parsed && rep.from_items > 0, "applied_to_nonempty")
+        .class_if(applied_ok, "apply_accepted")
+        .class_if(applied_ok && rep.from_items > 0 && rep.updates > 0, "apply_accepted_nonempty_with_updates")
+        .class_if(rep.skipped_known, "skipped_known_size_mismatch")
+        .class_if(rep.applied.as_ref().map(|r| r.warnings & (1 << 4) != 0).unwrap_or(false), "warn_unknown_delete");
+    if let Some(e) = rep.parse_err {
+        o = o.class(e);
+    }
+    if let Some(e) = applied_err {
+        o = o.class(match e {
+            "DeltaDifferingSizes" => "apply:DeltaDifferingSizes",
+            "TooManyItems" => "apply:TooManyItems",
+            "TooLongSnap" => "apply:TooLongSnap",
+            "DuplicateUuidType" => "apply:DuplicateUuidType",
+            "InvalidUuidType" => "apply:InvalidUuidType",
+            "MissingUuidType" => "apply:MissingUuidType",
+            _ => "apply:other",
+        });
+    }
+    o
+}
+
+pub fn delta_case_inputs(c: &DeltaCase) -> (Vec<i32>, Vec<i32>) {
+    let from_items = if c.fix_from { make_acceptable(expand(&c.from)) } else { dedup(expand(&c.from)) };
+    let (from_ints, _) = snap_wire(&from_items);
+    let (mut ints, lay) = delta_wire(&c.delta, &from_items, c.table);
+    for m in &c.muts {
+        mutate(&mut ints, &lay, m);
+    }
+    (from_ints, ints)
+}
+
+fn check_delta_case(k: &Known, c: &DeltaCase) -> PResult {
+    let (from_ints, ints) = delta_case_inputs(c);
+    match &c.wire {
+        Wire::Ints => {
+            let rep = oracle_delta_ints(k, c.table, &ints, &from_ints, true)?;
+            Ok(delta_outcome(&rep, ints.len()))
+        }
+        Wire::Bytes(bm) => {
+            let mut bytes = varints(&ints);
+            for m in bm {
+                mutate_bytes(&mut bytes, m);
+            }
+            let rep = oracle_delta_bytes(k, c.table, &bytes, &from_ints, true)?;
+            Ok(delta_outcome(&rep, bytes.len()))
+        }
+    }
+}
+
+fn check_pair_case(k: &Known, c: &PairCase) -> PResult {
+    let parse = |items: &[(u32, Vec<i32>)]| -> Result<Option<(Snap, Items)>, String> {
+        let (ints, _) = snap_wire(items);
+        let (s, r, _) = lib_snap_from_ints(&ints)?;
+        Ok(match (r, model_snap(&ints)) {
+            (Ok(()), Verdict::Accept(m)) | (Ok(()), Verdict::Either(m)) => Some((s, m)),
+            _ => None,
+        })
+    };
+    let a_items = make_acceptable(expand(&c.a));
+    let mut b_items = Vec::new();
+    if !a_items.is_empty() {
+        for (idx, data, same) in &c.share {
+            let (key, old) = &a_items[pick(*idx, a_items.len())];
+            let mut d = data.clone();
+            if *same {
+                d.resize(old.len(), 3);
+            }
+            b_items.push((*key, d));
+        }
+    }
+    b_items.extend(expand(&c.b));
+    let b_items = make_acceptable(b_items);
+    let (Some((a, am)), Some((b, bm))) = (parse(&a_items)?, parse(&b_items)?) else {
+        return Ok(Outcome::trivial().class("not_both_accepted"));
+    };
+    let mismatch = am.iter().any(|(key, d)| bm.get(key).map(|e| e.len() != d.len()).unwrap_or(false));
+    let common = am.keys().filter(|key| bm.contains_key(key)).count();
+    check_pair(k, "a -> b", &a, &am, &b, &bm)?;
+    check_pair(k, "b -> a", &b, &bm, &a, &am)?;
+    Ok(Outcome::nt(!am.is_empty() && !bm.is_empty() && !(mismatch && k.create_mismatch))
+        .class_if(common > 0, "common_keys")
+        .class_if(mismatch, "size_mismatch_on_common_key")
+        .class_if(am.len() + bm.len() > 100, "over_100_items"))
+}
+
+fn sweep_values(cur: i32, count: i32) -> Vec<i32> {
+    let mut v: Vec<i32> = WORDS.to_vec();
+    for d in [1i32, -1, 4, -4] {
+        v.push(cur.wrapping_add(d));
+    }
+    v.push(count + 1);
+    v.push(count - 1);
+    v.push((count + 1) * 4);
+    for h in HALVES {
+        v.push((((h as u32) << 16) | (cur as u32 & 0xffff)) as i32);
+        v.push(((cur as u32 & 0xffff_0000) | h as u32) as i32);
+    }
+    v.sort();
+    v.dedup();
+    v.retain(|&x| x != cur);
+    v
+}
+
+const BYTE_VALUES: [u8; 6] = [0x00, 0x3f, 0x40, 0x80, 0xc0, 0xff];
+
+/// Every single-word corruption of a small valid snapshot with every boundary value, every
+/// truncation of the word form, every truncation and boundary-byte corruption of the byte form.
+fn check_snap_sweep(k: &Known, spec: &SnapSpec) -> PResult {
+    let items = dedup(expand(spec));
+    let (ints, lay) = snap_wire(&items);
+    ensure!(ints.len() <= 400, "generator: sweep base too large");
+    let base = oracle_snap_ints(k, &ints, true).map_err(|e| format!("[unmodified] {}", e))?;
+    let mut acc_hostile = 0u32;
+    let mut rejected = 0u32;
+    let mut tally = |r: &Report| {
+        if r.accepted && r.hostile {
+            acc_hostile += 1;
+        }
+        if r.err.is_some() {
+            rejected += 1;
+        }
+    };
+    let mut work = ints.clone();
+    for pos in 0..ints.len() {
+        for v in sweep_values(ints[pos], lay.count) {
+            work[pos] = v;
+            let r = oracle_snap_ints(k, &work, true).map_err(|e| format!("[word {} := {}] {}", pos, v, e))?;
+            tally(&r);
+        }
+        work[pos] = ints[pos];
+    }
+    for cut in 0..ints.len() {
+        let r = oracle_snap_ints(k, &ints[..cut], true).map_err(|e| format!("[first {} words] {}", cut, e))?;
+        tally(&r);
+    }
+    let bytes = varints(&ints);
+    for cut in 0..bytes.len() {
+        let r = oracle_snap_bytes(k, &bytes[..cut], true).map_err(|e| format!("[first {} bytes] {}", cut, e))?;
+        tally(&r);
+    }
+    let mut bw = bytes.clone();
+    for pos in 0..bytes.len() {
+        for b in BYTE_VALUES {
+            if b != bytes[pos] {
+                bw[pos] = b;
+                let r = oracle_snap_bytes(k, &bw, true).map_err(|e| format!("[byte {} := {:#x}] {}", pos, b, e))?;
+                tally(&r);
+            }
+        }
+        bw[pos] = bytes[pos];
+    }
+    Ok(Outcome::nt(base.accepted && acc_hostile > 0 && rejected > 0)
+        .class_if(base.accepted, "base_accepted")
+        .class_if(acc_hostile > 0, "some_corruption_accepted")
+        .class_if(base.registry > 0, "base_with_registry"))
+}
+
+#[derive(Clone, Debug, Hash, Serialize, Deserialize)]
+pub struct DeltaSweepCase {
+    pub from: SnapSpec,
+    pub delta: DeltaSpec,
+    pub table: Table,
+}
+
+fn check_delta_sweep(k: &Known, c: &DeltaSweepCase) -> PResult {
+    let from_items = make_acceptable(expand(&c.from));
+    let (from_ints, _) = snap_wire(&from_items);
+    let (ints, lay) = delta_wire(&c.delta, &from_items, c.table);
+    ensure!(ints.len() <= 400 && from_ints.len() <= 600, "generator: sweep base too large");
+    let base = oracle_delta_ints(k, c.table, &ints, &from_ints, true).map_err(|e| format!("[unmodified] {}", e))?;
+    let mut parsed = 0u32;
+    let mut applied = 0u32;
+    let mut rejected = 0u32;
+    let mut tally = |r: &DReport| {
+        if r.parsed {
+            parsed += 1;
+        }
+        if r.applied.as_ref().map(|a| a.accepted).unwrap_or(false) {
+            applied += 1;
+        }
+        if r.parse_err.is_some() || r.applied.as_ref().map(|a| a.err.is_some()).unwrap_or(false) {
+            rejected += 1;
+        }
+    };
+    let mut work = ints.clone();
+    for pos in 0..ints.len() {
+        for v in sweep_values(ints[pos], lay.count) {
+            work[pos] = v;
+            let r = oracle_delta_ints(k, c.table, &work, &from_ints, true)
+                .map_err(|e| format!("[word {} := {}] {}", pos, v, e))?;
+            tally(&r);
+        }
+        work[pos] = ints[pos];
+    }
+    for cut in 0..ints.len() {
+        let r = oracle_delta_ints(k, c.table, &ints[..cut], &from_ints, true)
+            .map_err(|e| format!("[first {} words] {}", cut, e))?;
+        tally(&r);
+    }
+    let bytes = varints(&ints);
+    for cut in 0..bytes.len() {
+        let r = oracle_delta_bytes(k, c.table, &bytes[..cut], &from_ints, true)
+            .map_err(|e| format!("[first {} bytes] {}", cut, e))?;
+        tally(&r);
+    }
+    let mut bw = bytes.clone();
+    for pos in 0..bytes.len() {
+        for b in BYTE_VALUES {
+            if b != bytes[pos] {
+                bw[pos] = b;
+                let r = oracle_delta_bytes(k, c.table, &bw, &from_ints, true)
+                    .map_err(|e| format!("[byte {} := {:#x}] {}", pos, b, e))?;
+                tally(&r);
+            }
+        }
+        bw[pos] = bytes[pos];
+    }
+    Ok(Outcome::nt(base.parsed && applied > 0 && rejected > 0)
+        .class_if(base.parsed, "base_accepted")
+        .class_if(base.applied.as_ref().map(|a| a.accepted).unwrap_or(false), "base_applied")
+        .class_if(base.from_items > 0, "old_snapshot_nonempty")
+        .class_if(parsed > 0, "some_corruption_accepted"))
+}
+
+fn small_from_ints() -> Vec<i32> {
+    let mut m = Items::new();
+    m.insert(mk_key(1, 0), vec![1; 10]);
+    m.insert(mk_key(5, 1), vec![7, 8, 9]);
+    m.insert(mk_key(0, 0x4000), UUID_POOL[0].to_vec());
+    m.insert(mk_key(0x4000, 2), vec![3]);
+    m.insert(mk_key(21, 0), vec![]);
+    model_serialize(&m)
+}
+
+fn check_random_words(k: &Known, c: &RandomWords) -> PResult {
+    let s = oracle_snap_ints(k, &c.words, true)?;
+    let from = small_from_ints();
+    let d = oracle_delta_ints(k, c.table, &c.words, &from, true)?;
+    let mut o = Outcome::nt(!c.words.is_empty())
+        .class_if(s.accepted, "snap_accepted")
+        .class_if(d.parsed, "delta_accepted")
+        .class_if(d.applied.as_ref().map(|a| a.accepted).unwrap_or(false), "apply_accepted");
+    if let Some(e) = s.err {
+        o = o.class(e);
+    }
+    if let Some(e) = d.parse_err {
+        o = o.class(e);
+    }
+    Ok(o)
+}
+
+fn check_random_bytes(k: &Known, c: &RandomBytes) -> PResult {
+    let s = oracle_snap_bytes(k, &c.bytes, true)?;
+    let from = small_from_ints();
+    let d = oracle_delta_bytes(k, c.table, &c.bytes, &from, true)?;
+    let mut o = Outcome::nt(!c.bytes.is_empty())
+        .class_if(s.accepted, "snap_accepted")
+        .class_if(d.parsed, "delta_accepted")
+        .class_if(d.applied.as_ref().map(|a| a.accepted).unwrap_or(false), "apply_accepted");
+    if let Some(e) = s.err {
+        o = o.class(e);
+    }
+    if let Some(e) = d.parse_err {
+        o = o.class(e);
+    }
+    Ok(o)
+}
+
+// ---------------------------------------------------------------------------
+// Probes (one canonical input per finding)
+
+fn one_item(ty: u16, id: u16, data: &[i32]) -> Vec<i32> {
+    let mut m = Items::new();
+    m.insert(mk_key(ty, id), data.to_vec());
+    model_serialize(&m)
+}
+
+/// None: the library refuses the probe input (which settles the finding just as well).
+fn parsed(ints: &[i32]) -> Result<Option<(Snap, Items)>, String> {
+    let (s, r, _) = lib_snap_from_ints(ints)?;
+    match (r, model_snap(ints)) {
+        (Ok(()), Verdict::Accept(m)) | (Ok(()), Verdict::Either(m)) => Ok(Some((s, m))),
+        (Err(_), Verdict::Either(_)) => Ok(None),
+        (r, _) => Err(format!("probe input {} unexpectedly gives {:?}", clip(ints), r)),
+    }
+}
+
+pub fn probe_apply_mismatch() -> Result<(), String> {
+    // old snapshot {(1,0): [0]}, delta: update (1,0) with a two-word difference
+    oracle_delta_ints(&Known::none(), Table::None, &[0, 1, 0, 1, 0, 2, 5, 5], &one_item(1, 0, &[0]), false).map(|_| ())
+}
+
+pub fn probe_create_mismatch() -> Result<(), String> {
+    let (Some((a, am)), Some((b, bm))) = (parsed(&one_item(1, 0, &[0]))?, parsed(&one_item(1, 0, &[0, 0]))?) else {
+        return Ok(());
+    };
+    check_pair(&Known::none(), "{(1,0):[0]} -> {(1,0):[0,0]}", &a, &am, &b, &bm)
+}
+
+pub fn probe_recycle_low() -> Result<(), String> {
+    let Some((s, m)) = parsed(&one_item(0, 5, &UUID_POOL[1]))? else {
+        return Ok(());
+    };
+    check_recycle(&Known { recycle_low: false, ..Known::all() }, "{(0,5): uuid}", &s, &m)
+}
+
+pub fn probe_recycle_ladder() -> Result<(), String> {
+    let k = Known { recycle_ladder: false, recycle_uuid: false, ..Known::all() };
+    // up to 0x8000: the next type number becomes 0x8000
+    let spec = SnapSpec {
+        chunks: vec![
+            Chunk::Ladder { start: 0x40ff, step: 255, count: 64 },
+            Chunk::One { ty: 0, id: 0x7fff, data: UUID_POOL[1].to_vec() },
+        ],
+    };
+    if let Some((s, m)) = parsed(&snap_wire(&expand(&spec)).0)? {
+        check_recycle(&k, "registry ids 0x40ff, 0x41fe, .. 0x7fc0, 0x7fff", &s, &m)?;
+    }
+    // up to 0xffff: next + 256 leaves the 16 bits
+    let spec = SnapSpec {
+        chunks: vec![
+            Chunk::Ladder { start: 0x40ff, step: 255, count: 192 },
+            Chunk::One { ty: 0, id: 0xffff, data: UUID_POOL[1].to_vec() },
+        ],
+    };
+    if let Some((s, m)) = parsed(&snap_wire(&expand(&spec)).0)? {
+        check_recycle(&k, "registry ids 0x40ff, 0x41fe, .. 0xff40, 0xffff", &s, &m)?;
+    }
+    Ok(())
+}
+
+fn two_uuid_types() -> Vec<i32> {
+    let mut m = Items::new();
+    m.insert(mk_key(0, 0x4000), UUID_POOL[0].to_vec());
+    m.insert(mk_key(0, 0x4001), UUID_POOL[1].to_vec());
+    model_serialize(&m)
+}
+
+pub fn probe_recycle_uuid() -> Result<(), String> {
+    let Some((s, m)) = parsed(&two_uuid_types())? else {
+        return Ok(());
+    };
+    check_recycle(&Known { recycle_uuid: false, ..Known::all() }, "{(0,0x4000): uuid A, (0,0x4001): uuid B}", &s, &m)
+}
+
+pub fn probe_recycle_high() -> Result<(), String> {
+    let mut m = Items::new();
+    m.insert(mk_key(0, 0x4000), UUID_POOL[0].to_vec());
+    m.insert(mk_key(0, 0x8000), UUID_POOL[1].to_vec());
+    m.insert(mk_key(0x8000, 0), vec![1]);
+    let Some((s, m)) = parsed(&model_serialize(&m))? else {
+        return Ok(());
+    };
+    check_recycle(
+        &Known { recycle_high: false, recycle_uuid: false, ..Known::all() },
+        "{(0,0x4000): uuid A, (0,0x8000): uuid B, (0x8000,0): [1]}",
+        &s,
+        &m,
+    )
+}
+
+/// Performance only: the checks allocate and free many 64..80 KiB buffers per case; with glibc's
+/// default trim threshold every such free at the top of an arena returns memory to the kernel and
+/// the next allocation faults it back in (measured: 2x wall, 10x system time).
+fn tune_malloc() {
+    #[cfg(all(target_os = "linux", target_env = "gnu"))]
+    unsafe {
+        libc::mallopt(libc::M_TRIM_THRESHOLD, 512 << 20);
+        libc::mallopt(libc::M_MMAP_THRESHOLD, 64 << 20);
+    }
+}
+
+// ---------------------------------------------------------------------------
+
+pub fn run(ctx: &Ctx) {
+    ctx.set_rule(
+        "snapshots/deltas written by the harness's own writer from structured specs (ordinal, registry, extended and >= 0x8000 types, \
+         boundary ids, duplicate keys, registry ladders, runs near 1024 items, bodies near 64 KiB), then 0-3 wire corruptions (a structural \
+         field or any word set to a boundary value / neighbour / count+-1 / swapped key half, truncation, insertion, removal, copy) and for \
+         the byte form 0-2 byte corruptions; *_sweep sections take a small valid object and try every word x ~55 boundary values, every \
+         word- and byte-truncation and 6 boundary values in every byte; random_* are plain words/bytes. Non-trivial = non-empty input that was \
+         refused with an error variant, or accepted although it is not the canonical form of its content (deltas: accepted with warnings or \
+         applied to a non-empty snapshot); sweeps: base accepted and at least one corruption accepted and one refused. Distinct by case hash.",
+    );
+    ctx.assume("accept/reject and accepted content are judged by a reference reader written from doc/snapshot.md, the mechanism list of the property and the limits 1024 items / 64 KiB");
+    ctx.assume("varint decoding of the byte forms is taken from libtw2_packer::Unpacker (C08's subject)");
+    ctx.assume("allocation bound checked: peak live bytes and largest single request of one call <= 64 x input bytes + 64 KiB (per-thread counting allocator)");
+    ctx.assume("'never loops' is observed through callbacks only (warning sink, size table: fuel 4 x input bytes + 64) and the wall-clock watchdog");
+    let k = Known::from_ctx(ctx);
+    tune_malloc();
+
+    ctx.probe(K_APPLY_MISMATCH, probe_apply_mismatch);
+    ctx.probe(K_CREATE_MISMATCH, probe_create_mismatch);
+    ctx.probe(K_RECYCLE_LOW, probe_recycle_low);
+    ctx.probe(K_RECYCLE_LADDER, probe_recycle_ladder);
+    ctx.probe(K_RECYCLE_UUID, probe_recycle_uuid);
+    ctx.probe(K_RECYCLE_HIGH, || {
+        if guard(probe_recycle_uuid).map(|r| r.is_err()).unwrap_or(true) {
+            // masked: while the parsed registry loses its type numbers, recycle fails earlier on this input
+            return Ok(());
+        }
+        probe_recycle_high()
+    });
+
+    ctx.prop("snap_ints", ctx.n(300_000, 4_000_000), || snap_case_strategy(false), |c: &SnapCase| check_snap_case(&k, c));
+    ctx.prop("snap_bytes", ctx.n(150_000, 2_000_000), || snap_case_strategy(true), |c: &SnapCase| check_snap_case(&k, c));
+    ctx.prop("snap_sweep", ctx.n(3_000, 40_000), || spec_strategy(false, 3), |c: &SnapSpec| check_snap_sweep(&k, c));
+    ctx.prop("delta_ints", ctx.n(300_000, 4_000_000), || delta_case_strategy(false), |c: &DeltaCase| check_delta_case(&k, c));
+    ctx.prop("delta_bytes", ctx.n(150_000, 2_000_000), || delta_case_strategy(true), |c: &DeltaCase| check_delta_case(&k, c));
+    ctx.prop(
+        "delta_sweep",
+        ctx.n(2_000, 25_000),
+        || {
+            (spec_strategy(false, 3), delta_spec_strategy(3), table_strategy())
+                .prop_map(|(from, delta, table)| DeltaSweepCase { from, delta, table })
+        },
+        |c: &DeltaSweepCase| check_delta_sweep(&k, c),
+    );
+    ctx.prop(
+        "snap_pairs",
+        ctx.n(100_000, 1_000_000),
+        || {
+            let s = || prop_oneof![6 => spec_strategy(false, 6), 3 => spec_strategy(true, 4), 1 => limit_spec_strategy()];
+            let share = proptest::collection::vec((any::<u16>(), data_strategy(), proptest::bool::weighted(0.8)), 0..5);
+            (s(), s(), share).prop_map(|(a, b, share)| PairCase { a, b, share })
+        },
+        |c: &PairCase| check_pair_case(&k, c),
+    );
+    ctx.prop(
+        "random_words",
+        ctx.n(250_000, 5_000_000),
+        || (proptest::collection::vec(word(), 0..24), table_strategy()).prop_map(|(words, table)| RandomWords { words, table }),
+        |c: &RandomWords| check_random_words(&k, c),
+    );
+    ctx.prop(
+        "random_bytes",
+        ctx.n(200_000, 5_000_000),
+        || {
+            let byte = prop_oneof![3 => any::<u8>(), 2 => 0u8..8, 1 => proptest::sample::select(&BYTE_VALUES[..])];
+            (proptest::collection::vec(byte, 0..40), table_strategy()).prop_map(|(bytes, table)| RandomBytes { bytes, table })
+        },
+        |c: &RandomBytes| check_random_bytes(&k, c),
+    );
+
+    ctx.add_excluded_known(EXCLUDED.swap(0, Ordering::Relaxed));
+    let mut hit = serde_json::Map::new();
+    let mut distinct = BTreeSet::new();
+    for (o, op) in OPS.iter().enumerate() {
+        let mut per = serde_json::Map::new();
+        for (i, name) in ERR_NAMES.iter().enumerate() {
+            let n = ERR_SEEN[o][i].load(Ordering::Relaxed);
+            if n > 0 {
+                per.insert(name.to_string(), json!(n));
+                distinct.insert(*name);
+            }
+        }
+        hit.insert(op.to_string(), serde_json::Value::Object(per));
+    }
+    ctx.extra("error_variants_hit", serde_json::Value::Object(hit));
+    ctx.extra("distinct_error_variants_hit", json!(distinct.len()));
+    let missing: Vec<&str> = ERR_NAMES.iter().copied().filter(|n| !distinct.contains(n)).collect();
+    ctx.extra("error_variants_missing", json!(missing));
+    ctx.extra("library_inputs_judged", json!(VARIANTS.load(Ordering::Relaxed)));
 }
